@@ -1,4 +1,2670 @@
 package main
 
-// genQFrameOps: placeholder until the translation of this part of the library is written (an empty generated file).
-func genQFrameOps() string { return "" }
+// Translation of the frame bookkeeping of qframe.go (package qframe) into Gallina (coq/Gen/GenQFrameOps.v, tie T1
+// for the frame-level operations: properties C08, C10, C06, C01).
+//
+// The functions listed in qoSpecs are translated statement by statement into definitions gq_<Receiver>_<name>:
+// withErr, withIndex, Contains, Len, ColumnNames, checkColumns, Select, Drop, Slice, setColumn, Copy, constCount,
+// createColumn, New, apply0, apply1, apply2, Apply, WithRowNums, FilteredApply (qframe.go) and NewStringSet,
+// StringSet.Contains (internal/strings/set.go).  coq/Proofs/GenQFrameOpsProofs.v proves every generated definition equal — through the
+// representation relation stated there — to the hand-written model function of coq/Model/Ops.v / Model/Frame.v that
+// the proofs of the properties and the frameops engine use (with_err, with_ix, contains, frame_len, col_names, select,
+// drop, slice, set_column, copy, create_column, new_frame, apply0, apply1, apply2, apply, with_row_nums,
+// filtered_apply), so that an edit of
+// one of these Go functions changes the generated text and breaks a named theorem T1_qframe_<name> of
+// coq/Properties/T1QFrame.v.
+//
+// THE SCHEME (anything that does not fit is reported through problem(...); the block then keeps the text of the
+// golden copy, marked FALLBACK, so that the development still builds — the exit status says the tie is broken).
+//
+//	structs     namedColumn, QFrame, Instruction, ConstInt/Float/Bool/String, newqf.Config, qfstrings.StringBlob
+//	            become Records gq_<T> generated from the Go type declarations, one field per Go field in declaration
+//	            order (the embedded column.Column is the field Column; a method of column.Column called on a
+//	            namedColumn is the promoted one), with setters gq_<T>_set_<f>; a record takes as parameters exactly
+//	            the abstract types it mentions.  x.f -> (gq_T_f x); x.f = e -> let x :=
+//	            gq_T_set_f x e; a keyed composite literal T{f: e} -> gq_mk_T with the missing fields zero.  Frames
+//	            are VALUES (the Go methods have value receivers): nothing is shared between the record and its
+//	            copies except the backing stores of slices and maps, see "freshness".
+//	abstract    A = a row id (element of index.Int; no arithmetic on it; used as a position s[i] it goes through the
+//	            variable id_int), E = an error value, C = a column.Column value (col_nil its nil), F64 = float64
+//	            (f64_zero its zero), EC = ecolumn.Column, CF = newqf.ConfigFunc, CL = FilterClause, OTHER = a value of
+//	            a dynamic type no type switch names.
+//	boundary    Nothing below qframe.go is translated here.  The functions and methods listed in qoBoundary /
+//	            qoColMethods / qoFrameBoundary are section variables <pkg>_<Fn> / col_<Method> / qf_<method>, typed
+//	            from their Go signatures (text-matched), answering outcome T (they may panic): the per-type column
+//	            constructors icolumn.New .. ecolumn.NewConst, scolumn.NewBytes, Column.Len / Apply1 / Apply2,
+//	            index.NewAscending, newqf.NewConfig; QFrame.Filter (translated by filterclause.go over an abstract
+//	            frame type).  sort.Strings(s) is the variable sort_strings.
+//	            A variable is declared in the block of the first function that uses it.
+//	errors      error -> option E (nil = None).  qerrors.New(op, reason, args...) -> Some (new_error op reason):
+//	            the format arguments only reach the message text; they must be free of effects (identifiers,
+//	            fields, len, reflect.TypeOf) and are dropped.  qerrors.Propagate(op, err) -> Some (propagate op err);
+//	            an operation written fmt.Sprintf(format, effect-free args..) is represented by its format string.
+//	            qfstrings.CheckName(s) is called in its TRANSLATED form (Gen/GenFuncs.v: gf_strings_CheckName, tied
+//	            to Ops.check_name by T1_CheckName): gq_CheckName s = None when it answers true, Some
+//	            (checkname_error s) otherwise.  unknownCol(c) (a Sprintf, body text-matched) is the variable unknownCol.
+//	strings     string -> bytes; == on strings is bytes_eqb; a literal is its bytes.  *string -> option bytes;
+//	            &s[i] for a string element -> Some s[i] (strings are never written, so the pointer is its pointee).
+//	integers    Go int -> Z, exact (positions, lengths, counts; overflow of int is outside the translation as it
+//	            is outside the model); x > y is (y <? x); len(..) -> Z.of_nat (length ..); ix.Len() (body
+//	            text-matched) likewise; uint32(e) -> gq_u32 e (wraps).
+//	slices      []T -> list T; nil and the empty slice are both [].  make([]T, n [, c]) -> gq_make zero n c (Panic
+//	            for a negative length or c < n), make([]T, 0) -> []; s[i] -> gq_index s i, s[i] = v -> gq_update
+//	            (Panic outside the range); append(s, x) -> s ++ [x]; copy(d, s) -> gq_copy d s; f(s...) passes s;
+//	            s[a:b] -> gq_slice s a b: Panic unless 0 <= a <= b <= len(s).  Capacities are not represented: Go
+//	            accepts b up to cap(s); the translation is conservative there (the theorem of Slice shows the
+//	            fault unreachable: the bounds are checked against Len() first).
+//	maps        map[string]V -> gq_map V = list (bytes * V), an association list WITHOUT repeated keys in the
+//	            order of first insertion: m[k] -> gq_mget_or zero m k, v, ok := m[k] -> gq_mget_or / gq_mhas,
+//	            m[k] = v -> gq_mset (replaces in place or appends), delete(m, k) -> gq_mdel, len(m) -> length,
+//	            make(map..) -> [].  StringSet is map[string]struct{} (ss.Add(s), body text-matched, is gq_mset).
+//	            for k, v := range m visits the entries in an order Go leaves open and may change from one
+//	            statement to the next: every range-over-map statement has its own section variable
+//	            gq_<f>_orderN : forall V, gq_map V -> gq_map V, and the loop ranges over  gq_<f>_orderN _ m.  The
+//	            theorems are proved for EVERY such function that answers a permutation of its argument.
+//	interface{} a value of type interface{} / types.DataSlice / types.DataFuncOrBuiltInId is a value TAGGED with its
+//	            dynamic type: Inductive
+//	            gq_dyn with one constructor gq_dyn_<type> per type that a type switch or type assertion of the
+//	            translated functions names (collected from the source), gq_dyn_nil (the nil interface) and
+//	            gq_dyn_other (any other dynamic type).  switch t := x.(type) -> match x with constructor arms in
+//	            source order, the default clause (or falling out of the switch) the final wildcard arm; if v, ok
+//	            := x.(T); ok -> a match with two arms; storing a typed value into an interface{} variable applies
+//	            the constructor of its type.  case column.Column (an interface) is the constructor for "a Column
+//	            of a type not named before it".
+//	freshness   Slices and maps are references.  The value reading above is exact only if a store never reaches
+//	            an array or map that somebody else can see.  The translator therefore accepts s[i] = v, copy(s, ..),
+//	            m[k] = v, delete, ss.Add, sort.Strings(s) only when s / m is a path that THIS function assigned from
+//	            make(..) (and since then only from append to itself) on the straight line leading to the store — a
+//	            make inside one branch of an if does not count after the if — or a field of a value-result pointer
+//	            parameter.  A setColumn that writes into qf.columns (no header copy) is rejected, not translated.
+//	pointers    config *newqf.Config is a value-result parameter: the callee answers the new Config as an extra
+//	            result and the caller continues with it (the pointer comes from newqf.NewConfig, a fresh struct
+//	            nobody else holds).
+//	results     every function answers outcome T (Panic = Go panic); several results are a tuple.  There is NO
+//	            fuel: every loop is a range loop over a slice or map evaluated once, nothing is recursive.
+//	statements  x := e; a, b := e1, e2; v, ok := m[k]; a, b := f(..); a, b = f(..); var x T; lvalue = e (paths of
+//	            fields and indices); x++; copy(..); delete(..); ss.Add(..); sort.Strings(..) -> let / do.
+//	            A := in an inner block of a name that is live outside is rejected (shadowing).
+//	conditions  a && b, a || b are if-then-else (Go's short circuit); when b can panic the whole condition is
+//	            bound first:  do t <- (if a then (..; Ok b) else Ok false).
+//	if, switch  if init; cond { } : the init statement first (its names end with the if).  No return inside:
+//	            do (assigned outer variables) <- (if c then ..; Ok (..) else ..; Ok (..)); rest.  Otherwise the rest
+//	            of the block is continued inside the branches that fall through (the same text in each).
+//	range       for i, v := range X { body }: Definition gq_f_loopN := fix loop (l : list T) [(v_i : Z)] (variables
+//	            it mentions) {struct l}, numbered in order of completion; [] => EXIT, v :: l' => body; loop l'
+//	            [(v_i + 1)] (current values).  A loop without return answers the outer variables it assigns.  A
+//	            loop with a return inside (only at the top level of a function) also contains the statements
+//	            that follow it (EXIT = the rest of the function).
+//	functions   a value of type func() T is gq_func0 T = a state and a step function (a closure over variables that it
+//	            alone holds).  t() -> do (r, t) <- gq_func0_call t: the result and the function value in its next
+//	            state (a loop that calls t threads it).  func() T { return e } with e free of effects and no store
+//	            into a captured variable -> gq_func0_pure e.  A literal that stores into captured variables
+//	            (WithRowNums: i++; return i) -> gq_mk_func0 (captured variables) (fun them => body answering the
+//	            result and their new values); accepted only inside a return statement, so that the enclosing
+//	            function never sees those variables again.
+//	rejected    for with a condition, break, continue, goto, labels, expression switch, defer, other closures and
+//	            function types, stores through pointers other than the value-result parameter, everything else.
+
+import (
+	"flag"
+	"fmt"
+	"go/ast"
+	"go/token"
+	"os"
+	"path/filepath"
+	"strings"
+)
+
+const qoRoot = "."
+const qoStrPkg = "internal/strings"
+
+type qoSpec struct{ pkg, fn string }
+
+// in emission order (callees first)
+var qoSpecs = []qoSpec{
+	{qoStrPkg, "NewStringSet"}, {qoStrPkg, "StringSet.Contains"},
+	{qoRoot, "QFrame.withErr"}, {qoRoot, "QFrame.withIndex"}, {qoRoot, "QFrame.Contains"}, {qoRoot, "QFrame.Len"},
+	{qoRoot, "QFrame.ColumnNames"}, {qoRoot, "QFrame.checkColumns"}, {qoRoot, "QFrame.Select"}, {qoRoot, "QFrame.Drop"},
+	{qoRoot, "QFrame.Slice"}, {qoRoot, "QFrame.setColumn"}, {qoRoot, "QFrame.Copy"},
+	{qoRoot, "constCount"}, {qoRoot, "createColumn"}, {qoRoot, "New"},
+	{qoRoot, "QFrame.apply0"}, {qoRoot, "QFrame.apply1"}, {qoRoot, "QFrame.apply2"}, {qoRoot, "QFrame.Apply"},
+	{qoRoot, "QFrame.WithRowNums"}, {qoRoot, "QFrame.FilteredApply"},
+}
+
+// the methods of column.Column the translated functions call (below the abstraction boundary): the text of the
+// method in the interface declaration
+var qoColMethods = map[string]string{
+	"Len":    "func() int",
+	"Apply1": "func(fn interface{}, ix index.Int) (interface{}, error)",
+	"Apply2": "func(fn interface{}, s2 Column, ix index.Int) (Column, error)",
+}
+
+// the methods of QFrame that are called but not translated here (section variables qf_<name>)
+var qoFrameBoundary = []struct{ fn, sig string }{
+	{"Filter", "func (qf QFrame) Filter(clause FilterClause) QFrame"},
+}
+
+// the structs read from the source: the name as package qframe writes it, the package, the declared name
+var qoStructSpecs = []struct{ key, pkg, name string }{
+	{"namedColumn", qoRoot, "namedColumn"}, {"QFrame", qoRoot, "QFrame"},
+	{"ConstString", qoRoot, "ConstString"}, {"ConstInt", qoRoot, "ConstInt"}, {"ConstFloat", qoRoot, "ConstFloat"}, {"ConstBool", qoRoot, "ConstBool"},
+	{"newqf.Config", "config/newqf", "Config"}, {"qfstrings.StringBlob", qoStrPkg, "StringBlob"},
+	{"Instruction", qoRoot, "Instruction"},
+}
+
+// the functions below the abstraction boundary: package, name, the signature the translation stands for
+var qoBoundary = []struct{ pkg, fn, sig string }{
+	{"internal/icolumn", "New", "func New(d []int) Column"}, {"internal/icolumn", "NewConst", "func NewConst(val int, count int) Column"},
+	{"internal/fcolumn", "New", "func New(d []float64) Column"}, {"internal/fcolumn", "NewConst", "func NewConst(val float64, count int) Column"},
+	{"internal/bcolumn", "New", "func New(d []bool) Column"}, {"internal/bcolumn", "NewConst", "func NewConst(val bool, count int) Column"},
+	{"internal/scolumn", "New", "func New(strings []*string) Column"}, {"internal/scolumn", "NewConst", "func NewConst(val *string, count int) Column"},
+	{"internal/scolumn", "NewBytes", "func NewBytes(pointers []qfstrings.Pointer, bytes []byte) Column"},
+	{"internal/ecolumn", "New", "func New(data []*string, values []string) (Column, error)"},
+	{"internal/ecolumn", "NewConst", "func NewConst(val *string, count int, values []string) (Column, error)"},
+	{"internal/index", "NewAscending", "func NewAscending(size uint32) Int"},
+	{"config/newqf", "NewConfig", "func NewConfig(fns []ConfigFunc) *Config"},
+}
+
+// the text the fixed vocabulary stands for (printed by go/printer)
+var qoVocabulary = []struct{ pkg, fn, text string }{
+	{"internal/index", "Int.Len", "func (ix Int) Len() int {\n\treturn len(ix)\n}"},
+	{qoStrPkg, "StringSet.Add", "func (ss StringSet) Add(s string) {\n\tss[s] = struct{}{}\n}"},
+	{qoRoot, "unknownCol", "func unknownCol(c string) string {\n\treturn fmt.Sprintf(`unknown column: \"%s\"`, c)\n}"},
+	{"qerrors", "New", "func New(operation, reason string, params ...interface{}) Error"},
+	{"qerrors", "Propagate", "func Propagate(operation string, err error) Error"},
+	{qoStrPkg, "CheckName", "func CheckName(name string) error"},
+}
+
+// the type declarations the translation stands for, beside the structs it reads
+var qoTypeTexts = []struct{ pkg, name, text string }{
+	{"internal/index", "Int", "[]uint32"},
+	{qoStrPkg, "StringSet", "map[string]struct{}"},
+	{qoStrPkg, "Pointer", "uint64"},
+	{"types", "DataSlice", "interface{}"},
+	{"types", "DataFuncOrBuiltInId", "interface{}"},
+	{"types", "ColumnName", "string"},
+	{"config/newqf", "ConfigFunc", "func(c *Config)"},
+}
+
+const qoPreamble = `(* GENERATED by tools/qf2coq (qframeops.go) from qframe.go and internal/strings/set.go of tobgu/qframe — do not
+   edit.  One Record gq_<T> per struct, Inductive gq_dyn for interface{} values (a constructor per dynamic type the
+   type switches name), one definition gq_<Receiver>_<function> per translated Go function, one Definition .._loopN
+   (a fix over the ranged list) per loop; the scheme is described at the top of tools/qf2coq/qframeops.go.
+   A = row id, E = error value, C = column.Column, F64 = float64, EC = ecolumn.Column, CF = newqf.ConfigFunc,
+   CL = FilterClause, OTHER = a value of an unlisted dynamic type are abstract; everything below qframe.go (column
+   constructors and methods, index.NewAscending, newqf.NewConfig, sort.Strings, QFrame.Filter) is a section variable.
+   A map with string keys is an association list without repeated keys (gq_map); every range over a map has its
+   own variable .._orderN for the order Go leaves open; a func() T value is a state with a step (gq_func0).  Every
+   function answers outcome T (Panic = Go panic); there is no fuel: every loop ranges over a list. *)
+From QF Require Import Base.Prelude Gen.GenFuncs.
+Local Open Scope Z_scope.
+
+(* uint32(e) *)
+Definition gq_u32 (x : Z) : Z := x mod 4294967296.
+(* make([]T, n, c), s[i], s[i] = v, copy(d, s), s[a:b] *)
+Definition gq_make {T : Type} (zero : T) (n c : Z) : outcome (list T) :=
+  if (n <? 0) || (c <? n) then Panic else Ok (repeat zero (Z.to_nat n)).
+Definition gq_index {T : Type} (s : list T) (i : Z) : outcome T :=
+  if i <? 0 then Panic else idx s (Z.to_nat i).
+Definition gq_update {T : Type} (s : list T) (i : Z) (v : T) : outcome (list T) :=
+  if i <? 0 then Panic else do _ <- idx s (Z.to_nat i); Ok (set_nth s (Z.to_nat i) v).
+Definition gq_copy {T : Type} (d s : list T) : list T :=
+  firstn (length d) s ++ skipn (length s) d.
+Definition gq_slice {T : Type} (s : list T) (a b : Z) : outcome (list T) :=
+  if (a <? 0) || (b <? a) || (Z.of_nat (length s) <? b) then Panic
+  else Ok (firstn (Z.to_nat (b - a)) (skipn (Z.to_nat a) s)).
+(* a function value func() T: a state and a step (a Go closure over variables that it alone holds); f() *)
+Inductive gq_func0 (T : Type) : Type := gq_mk_func0 (S : Type) (s : S) (next : S -> outcome (T * S)).
+Arguments gq_mk_func0 {T S}.
+Definition gq_func0_call {T : Type} (f : gq_func0 T) : outcome (T * gq_func0 T) :=
+  match f with gq_mk_func0 s next => do r <- next s; Ok (fst r, gq_mk_func0 (snd r) next) end.
+Definition gq_func0_pure {T : Type} (v : T) : gq_func0 T := gq_mk_func0 tt (fun s => Ok (v, s)).
+(* x == nil for an error *)
+Definition gq_isnil {T : Type} (p : option T) : bool := match p with None => true | Some _ => false end.
+(* map[string]V: m[k], _, ok := m[k], m[k] = v, delete(m, k) *)
+Definition gq_map (V : Type) : Type := list (bytes * V).
+Fixpoint gq_mget {V : Type} (m : gq_map V) (k : bytes) : option V :=
+  match m with
+  | [] => None
+  | (k', v) :: r => if bytes_eqb k' k then Some v else gq_mget r k
+  end.
+Definition gq_mget_or {V : Type} (zero : V) (m : gq_map V) (k : bytes) : V :=
+  match gq_mget m k with Some v => v | None => zero end.
+Definition gq_mhas {V : Type} (m : gq_map V) (k : bytes) : bool :=
+  match gq_mget m k with Some _ => true | None => false end.
+Fixpoint gq_mset {V : Type} (m : gq_map V) (k : bytes) (v : V) : gq_map V :=
+  match m with
+  | [] => [(k, v)]
+  | (k', v') :: r => if bytes_eqb k' k then (k', v) :: r else (k', v') :: gq_mset r k v
+  end.
+Fixpoint gq_mdel {V : Type} (m : gq_map V) (k : bytes) : gq_map V :=
+  match m with
+  | [] => []
+  | (k', v') :: r => if bytes_eqb k' k then r else (k', v') :: gq_mdel r k
+  end.
+
+`
+
+// ------------------------------------------------------------------ types
+
+type qoT struct {
+	k     string // int bool string byte f64 optstr err col ecol cf fn clause id unit dyn nil bad slice map struct tuple
+	elem  *qoT
+	sname string // struct: the key of the struct; map: "StringSet" for the named map type
+	parts []*qoT // tuple
+	ptr   bool   // struct reached through a value-result pointer
+}
+
+func qoK(k string) *qoT { return &qoT{k: k} }
+
+var qoBad = qoK("bad")
+
+func qoSlice(e *qoT) *qoT { return &qoT{k: "slice", elem: e} }
+func qoMap(e *qoT) *qoT   { return &qoT{k: "map", elem: e} }
+
+func (t *qoT) same(u *qoT) bool {
+	if t.k != u.k {
+		return false
+	}
+	switch t.k {
+	case "slice", "map", "func0":
+		return t.elem.same(u.elem)
+	case "struct":
+		return t.sname == u.sname
+	case "tuple":
+		if len(t.parts) != len(u.parts) {
+			return false
+		}
+		for i := range t.parts {
+			if !t.parts[i].same(u.parts[i]) {
+				return false
+			}
+		}
+	}
+	return true
+}
+
+// the abstract types of the section, in the order in which the generated types take them
+var qoTypeParams = []string{"A", "E", "C", "F64", "EC", "OTHER", "CF", "CL"}
+
+// params: the abstract types a translation type mentions
+func (t *qoT) params(into map[string]bool) {
+	switch t.k {
+	case "err":
+		into["E"] = true
+	case "col":
+		into["C"] = true
+	case "id":
+		into["A"] = true
+	case "f64":
+		into["F64"] = true
+	case "ecol":
+		into["EC"] = true
+	case "cf":
+		into["CF"] = true
+	case "func0":
+		t.elem.params(into)
+	case "clause":
+		into["CL"] = true
+	case "slice", "map":
+		t.elem.params(into)
+	case "tuple":
+		for _, p := range t.parts {
+			p.params(into)
+		}
+	case "struct":
+		if s := qoStructOf(t.sname); s != nil {
+			for _, f := range s.fields {
+				f.ty.params(into)
+			}
+		}
+	case "dyn":
+		for _, d := range qoDyn {
+			d.ty.params(into)
+		}
+		into["OTHER"] = true
+	}
+}
+
+func qoParamList(ty *qoT) []string {
+	m := map[string]bool{}
+	ty.params(m)
+	var out []string
+	for _, p := range qoTypeParams {
+		if m[p] {
+			out = append(out, p)
+		}
+	}
+	return out
+}
+
+func qoApplied(name string, ps []string) string {
+	if len(ps) == 0 {
+		return name
+	}
+	return "(" + name + " " + strings.Join(ps, " ") + ")"
+}
+
+func (t *qoT) coq() string {
+	switch t.k {
+	case "int":
+		return "Z"
+	case "bool":
+		return "bool"
+	case "string":
+		return "bytes"
+	case "byte":
+		return "N"
+	case "f64":
+		return "F64"
+	case "optstr":
+		return "(option bytes)"
+	case "err":
+		return "(option E)"
+	case "col":
+		return "C"
+	case "ecol":
+		return "EC"
+	case "cf":
+		return "CF"
+	case "func0":
+		return "(gq_func0 " + t.elem.coq() + ")"
+	case "clause":
+		return "CL"
+	case "id":
+		return "A"
+	case "unit":
+		return "unit"
+	case "dyn":
+		return qoApplied("gq_dyn", qoParamList(t))
+	case "slice":
+		return "(list " + t.elem.coq() + ")"
+	case "map":
+		return "(gq_map " + t.elem.coq() + ")"
+	case "struct":
+		if s := qoStructOf(t.sname); s != nil {
+			return qoApplied("gq_"+s.name, qoParamList(t))
+		}
+	case "tuple":
+		var ps []string
+		for _, p := range t.parts {
+			ps = append(ps, p.coq())
+		}
+		return gcTypeTuple(ps)
+	}
+	return "?"
+}
+
+type qoField struct {
+	name string
+	ty   *qoT
+}
+
+type qoStruct struct {
+	key    string // as package qframe writes the type
+	name   string // the declared name
+	fields []qoField
+}
+
+var qoStructs []*qoStruct
+
+func qoStructOf(key string) *qoStruct {
+	for _, s := range qoStructs {
+		if s.key == key {
+			return s
+		}
+	}
+	return nil
+}
+
+// the dynamic types of interface{} values: one constructor of gq_dyn per type that a type switch or a type
+// assertion of the translated functions names
+type qoDynCase struct {
+	text string // the Go type as written
+	ctor string
+	ty   *qoT
+}
+
+var qoDyn []qoDynCase
+
+func qoDynOf(text string) *qoDynCase {
+	for i := range qoDyn {
+		if qoDyn[i].text == text {
+			return &qoDyn[i]
+		}
+	}
+	return nil
+}
+
+func qoMangle(text string) string {
+	r := strings.NewReplacer("[]", "slice_", "*", "ptr_", ".", "_", "func() ", "func_")
+	return r.Replace(text)
+}
+
+func (t *qoT) zero() (string, bool) {
+	switch t.k {
+	case "int":
+		return "0", true
+	case "bool":
+		return "false", true
+	case "string":
+		return "(@nil N)", true
+	case "byte":
+		return "0%N", true
+	case "f64":
+		return "f64_zero", true
+	case "err", "optstr":
+		return "None", true
+	case "col":
+		return "col_nil", true
+	case "unit":
+		return "tt", true
+	case "dyn":
+		return "gq_dyn_nil", true
+	case "slice", "map":
+		return "[]", true
+	case "struct":
+		s := qoStructOf(t.sname)
+		if s == nil {
+			return "", false
+		}
+		parts := []string{"gq_mk_" + s.name}
+		for _, f := range s.fields {
+			z, ok := f.ty.zero()
+			if !ok {
+				return "", false
+			}
+			parts = append(parts, z)
+		}
+		return "(" + strings.Join(parts, " ") + ")", true
+	}
+	return "", false
+}
+
+// qoResolve maps the text of a Go type expression to a translation type
+func qoResolve(pkg, src string) *qoT {
+	switch src {
+	case "int", "uint32":
+		return qoK("int")
+	case "bool":
+		return qoK("bool")
+	case "string":
+		return qoK("string")
+	case "byte":
+		return qoK("byte")
+	case "float64":
+		return qoK("f64")
+	case "*string":
+		return qoK("optstr")
+	case "error":
+		return qoK("err")
+	case "struct{}":
+		return qoK("unit")
+	case "interface{}":
+		return qoK("dyn")
+	}
+	if strings.HasPrefix(src, "[]") {
+		if e := qoResolve(pkg, src[2:]); e.k != "bad" {
+			return qoSlice(e)
+		}
+		return qoBad
+	}
+	if strings.HasPrefix(src, "...") {
+		if e := qoResolve(pkg, src[3:]); e.k != "bad" {
+			return qoSlice(e)
+		}
+		return qoBad
+	}
+	if strings.HasPrefix(src, "func() ") {
+		if e := qoResolve(pkg, src[len("func() "):]); e.k != "bad" && e.k != "tuple" {
+			return &qoT{k: "func0", elem: e}
+		}
+		return qoBad
+	}
+	if strings.HasPrefix(src, "map[string]") {
+		if e := qoResolve(pkg, src[len("map[string]"):]); e.k != "bad" {
+			return qoMap(e)
+		}
+		return qoBad
+	}
+	if pkg == qoRoot {
+		switch src {
+		case "column.Column":
+			return qoK("col")
+		case "ecolumn.Column":
+			return qoK("ecol")
+		case "index.Int":
+			return qoSlice(qoK("id"))
+		case "types.DataSlice":
+			return qoK("dyn")
+		case "newqf.ConfigFunc":
+			return qoK("cf")
+		case "types.DataFuncOrBuiltInId":
+			return qoK("dyn")
+		case "types.ColumnName":
+			return qoK("string")
+		case "FilterClause":
+			return qoK("clause")
+		case "qfstrings.StringSet":
+			return &qoT{k: "map", elem: qoK("unit"), sname: "StringSet"}
+		case "*newqf.Config":
+			if qoStructOf("newqf.Config") != nil {
+				return &qoT{k: "struct", sname: "newqf.Config", ptr: true}
+			}
+			return qoBad
+		}
+		if qoStructOf(src) != nil {
+			return &qoT{k: "struct", sname: src}
+		}
+		return qoBad
+	}
+	// the other packages: their own names for the types
+	switch {
+	case pkg == qoStrPkg && src == "StringSet":
+		return &qoT{k: "map", elem: qoK("unit"), sname: "StringSet"}
+	case (pkg == qoStrPkg && src == "Pointer") || src == "qfstrings.Pointer":
+		return qoK("int")
+	case strings.HasSuffix(pkg, "column") && src == "Column":
+		return qoK("col")
+	case pkg == "internal/index" && src == "Int":
+		return qoSlice(qoK("id"))
+	case pkg == "config/newqf" && src == "ConfigFunc":
+		return qoK("cf")
+	case pkg == "config/newqf" && src == "*Config":
+		if qoStructOf("newqf.Config") != nil {
+			return &qoT{k: "struct", sname: "newqf.Config", ptr: true}
+		}
+	}
+	return qoBad
+}
+
+// qoLoadStructs reads the struct declarations the translation uses
+func qoLoadStructs() bool {
+	qoStructs = nil
+	okAll := true
+	for _, sp := range qoStructSpecs {
+		p := loadPkg(sp.pkg)
+		var st *ast.StructType
+		for _, f := range p.files {
+			for _, d := range f.Decls {
+				gd, ok := d.(*ast.GenDecl)
+				if !ok || gd.Tok != token.TYPE {
+					continue
+				}
+				for _, s := range gd.Specs {
+					ts := s.(*ast.TypeSpec)
+					if ts.Name.Name == sp.name {
+						st, _ = ts.Type.(*ast.StructType)
+					}
+				}
+			}
+		}
+		if st == nil {
+			problem("qframe translation: struct %s not found in %s", sp.name, sp.pkg)
+			okAll = false
+			continue
+		}
+		s := &qoStruct{key: sp.key, name: sp.name}
+		qoStructs = append(qoStructs, s)
+		for _, fl := range st.Fields.List {
+			src := gcSrc(p.fset, fl.Type)
+			ty := qoResolve(sp.pkg, src)
+			if ty.k == "bad" {
+				problem("qframe translation: field of %s has a type outside the scheme: %s", sp.name, src)
+				okAll = false
+				continue
+			}
+			if len(fl.Names) == 0 { // embedded: the field is called like the type
+				s.fields = append(s.fields, qoField{src[strings.LastIndex(src, ".")+1:], ty})
+			}
+			for _, id := range fl.Names {
+				s.fields = append(s.fields, qoField{id.Name, ty})
+			}
+		}
+	}
+	return okAll
+}
+
+func qoRecord(s *qoStruct) string {
+	var b strings.Builder
+	self := &qoT{k: "struct", sname: s.key}
+	ps := qoParamList(self)
+	bind, impl := "", ""
+	if len(ps) > 0 {
+		bind = " (" + strings.Join(ps, " ") + " : Type)"
+		impl = " {" + strings.Join(ps, " ") + "}"
+	}
+	fmt.Fprintf(&b, "Record gq_%s%s := gq_mk_%s {\n", s.name, bind, s.name)
+	for i, f := range s.fields {
+		sep := ";"
+		if i == len(s.fields)-1 {
+			sep = " }."
+		}
+		fmt.Fprintf(&b, "  gq_%s_%s : %s%s\n", s.name, f.name, f.ty.coq(), sep)
+	}
+	if impl != "" {
+		fmt.Fprintf(&b, "Arguments gq_mk_%s%s.\n", s.name, impl)
+		for _, f := range s.fields {
+			fmt.Fprintf(&b, "Arguments gq_%s_%s%s.\n", s.name, f.name, impl)
+		}
+	}
+	bindI := ""
+	if len(ps) > 0 {
+		bindI = " {" + strings.Join(ps, " ") + " : Type}"
+	}
+	for i, f := range s.fields {
+		fmt.Fprintf(&b, "Definition gq_%s_set_%s%s (r : %s) (v : %s) : %s :=\n  gq_mk_%s", s.name, f.name, bindI, self.coq(), f.ty.coq(), self.coq(), s.name)
+		for j, g := range s.fields {
+			if i == j {
+				b.WriteString(" v")
+			} else {
+				fmt.Fprintf(&b, " (gq_%s_%s r)", s.name, g.name)
+			}
+		}
+		b.WriteString(".\n")
+	}
+	return b.String()
+}
+
+// qoLoadDyn collects the dynamic types named by the type switches and type assertions of the functions
+func qoLoadDyn(fds []*ast.FuncDecl, fset *token.FileSet) bool {
+	qoDyn = nil
+	okAll := true
+	add := func(e ast.Expr) {
+		text := gcSrc(fset, e)
+		if qoDynOf(text) != nil {
+			return
+		}
+		ty := qoResolve(qoRoot, text)
+		if ty.k == "bad" || ty.k == "dyn" {
+			problem("qframe translation: dynamic type outside the scheme: %s", text)
+			okAll = false
+			return
+		}
+		qoDyn = append(qoDyn, qoDynCase{text, "gq_dyn_" + qoMangle(text), ty})
+	}
+	for _, fd := range fds {
+		ast.Inspect(fd, func(n ast.Node) bool {
+			switch x := n.(type) {
+			case *ast.TypeAssertExpr:
+				if x.Type != nil {
+					add(x.Type)
+				}
+			case *ast.CaseClause:
+				for _, e := range x.List {
+					if _, isLit := e.(*ast.BasicLit); !isLit {
+						add(e)
+					}
+				}
+			}
+			return true
+		})
+	}
+	return okAll
+}
+
+func qoDynInductive() string {
+	var b strings.Builder
+	ps := qoParamList(qoK("dyn"))
+	b.WriteString("(* interface{} / types.DataSlice: a value with its dynamic type; one constructor per type that a type switch or\n   a type assertion of the translated functions names, gq_dyn_nil the nil interface, gq_dyn_other anything else *)\n")
+	fmt.Fprintf(&b, "Inductive gq_dyn (%s : Type) : Type :=\n| gq_dyn_nil\n", strings.Join(ps, " "))
+	for _, d := range qoDyn {
+		fmt.Fprintf(&b, "| %s (x : %s)   (* %s *)\n", d.ctor, d.ty.coq(), d.text)
+	}
+	b.WriteString("| gq_dyn_other (x : OTHER).\n")
+	impl := " {" + strings.Join(ps, " ") + "}"
+	fmt.Fprintf(&b, "Arguments gq_dyn_nil%s.\n", impl)
+	for _, d := range qoDyn {
+		fmt.Fprintf(&b, "Arguments %s%s.\n", d.ctor, impl)
+	}
+	fmt.Fprintf(&b, "Arguments gq_dyn_other%s.\n", impl)
+	return b.String()
+}
+
+// ------------------------------------------------------------------ translation state
+
+type qoVar struct {
+	name  string
+	coq   string
+	ty    *qoT
+	depth int
+}
+
+type qoFunc struct {
+	spec   qoSpec
+	fd     *ast.FuncDecl
+	coq    string
+	recv   *qoVar
+	params []qoVar
+	res    []*qoT
+	orders []string // the order variables of its range-over-map statements
+	bvars  []string // the declarations of the boundary variables it is the first to use
+	ptrs   []qoVar  // its value-result pointer parameters, answered after the results
+	text   string
+	ok     bool
+	done   bool
+}
+
+var qoFuncs map[string]*qoFunc // by "pkg:Name"
+
+type qoCtx struct {
+	vars  []qoVar
+	top   bool
+	depth int
+}
+
+func (c qoCtx) lookup(name string) (qoVar, bool) {
+	for i := len(c.vars) - 1; i >= 0; i-- {
+		if c.vars[i].name == name {
+			return c.vars[i], true
+		}
+	}
+	return qoVar{}, false
+}
+
+func (c qoCtx) inner() qoCtx {
+	c.depth++
+	return c
+}
+
+type qoTr struct {
+	p      *pkgInfo
+	f      *qoFunc
+	bad    bool
+	ntmp   int
+	loops  []string
+	nloops int
+	norder int
+	fresh  map[string]bool
+	// the variables passed for the value-result pointer parameters of the last translated call
+	lastPtrArgs []string
+	inReturn    bool
+}
+
+// isFresh: the path holds an array or map that nobody else can see
+func (t *qoTr) isFresh(e ast.Expr, c qoCtx) bool {
+	if t.fresh[t.src(e)] {
+		return true
+	}
+	if v, ok := c.lookup(gcRootIdent(e)); ok && v.ty.ptr {
+		return true
+	}
+	return false
+}
+
+// Freshness is tracked along the straight line of a block.  At the end of a compound statement (if, switch, loop)
+// the marks made inside it are dropped and the paths it assigns are no longer fresh (its branches may or may not
+// have run); every branch starts from the marks that held at its beginning.
+func qoCopySet(m map[string]bool) map[string]bool {
+	c := map[string]bool{}
+	for k, v := range m {
+		if v {
+			c[k] = true
+		}
+	}
+	return c
+}
+
+func (t *qoTr) leave(snapshot map[string]bool, nodes ...ast.Node) {
+	var re []string
+	for _, n := range nodes {
+		if n == nil {
+			continue
+		}
+		ast.Inspect(n, func(m ast.Node) bool {
+			if as, ok := m.(*ast.AssignStmt); ok {
+				for _, l := range as.Lhs {
+					switch l.(type) {
+					case *ast.Ident, *ast.SelectorExpr:
+						re = append(re, t.src(l))
+					}
+				}
+			}
+			return true
+		})
+	}
+	nf := map[string]bool{}
+	for k := range snapshot {
+		bad := false
+		for _, r := range re {
+			if k == r || strings.HasPrefix(k, r+".") {
+				bad = true
+			}
+		}
+		if !bad {
+			nf[k] = true
+		}
+	}
+	t.fresh = nf
+}
+
+// qoEffectFree: an argument that only reaches a message text and can neither panic nor change anything
+func qoEffectFree(e ast.Expr) bool {
+	switch x := e.(type) {
+	case *ast.Ident, *ast.BasicLit:
+		return true
+	case *ast.SelectorExpr:
+		return qoEffectFree(x.X)
+	case *ast.CallExpr:
+		if id, ok := x.Fun.(*ast.Ident); ok && id.Name == "len" && len(x.Args) == 1 {
+			return qoEffectFree(x.Args[0])
+		}
+		if se, ok := x.Fun.(*ast.SelectorExpr); ok && len(x.Args) == 1 {
+			if id, ok := se.X.(*ast.Ident); ok && id.Name == "reflect" && se.Sel.Name == "TypeOf" {
+				return qoEffectFree(x.Args[0])
+			}
+		}
+	}
+	return false
+}
+
+var qoBoundaryDeclared map[string]bool
+
+// boundaryVar: the section variable for a function below the abstraction boundary, typed from its signature
+func (t *qoTr) boundaryVar(n ast.Node, alias, fn string) (name string, params []*qoT, res *qoT, ok bool) {
+	for _, bd := range qoBoundary {
+		if bd.pkg[strings.LastIndex(bd.pkg, "/")+1:] != alias || bd.fn != fn {
+			continue
+		}
+		bp := loadPkg(bd.pkg)
+		fd, found := bp.funcs[fn]
+		if !found {
+			t.fail(n, "%s.%s not found", alias, fn)
+			return
+		}
+		var rs []*qoT
+		for _, fl := range fd.Type.Params.List {
+			ty := qoResolve(bd.pkg, gcSrc(bp.fset, fl.Type))
+			if ty.k == "bad" {
+				t.fail(n, "%s.%s has a parameter type outside the scheme: %s", alias, fn, gcSrc(bp.fset, fl.Type))
+				return
+			}
+			for range fl.Names {
+				params = append(params, ty)
+			}
+		}
+		for _, fl := range fd.Type.Results.List {
+			ty := qoResolve(bd.pkg, gcSrc(bp.fset, fl.Type))
+			if ty.k == "bad" {
+				t.fail(n, "%s.%s has a result type outside the scheme: %s", alias, fn, gcSrc(bp.fset, fl.Type))
+				return
+			}
+			rs = append(rs, ty)
+		}
+		if len(rs) == 1 {
+			res = rs[0]
+		} else {
+			res = &qoT{k: "tuple", parts: rs}
+		}
+		name = alias + "_" + fn
+		if !qoBoundaryDeclared[name] {
+			qoBoundaryDeclared[name] = true
+			sig := ""
+			for _, p := range params {
+				sig += p.coq() + " -> "
+			}
+			t.f.bvars = append(t.f.bvars, fmt.Sprintf("Variable %s : %soutcome %s.   (* %s.%s: below the abstraction boundary *)", name, sig, res.coq(), alias, fn))
+		}
+		return name, params, res, true
+	}
+	return
+}
+
+func (t *qoTr) fail(n ast.Node, format string, a ...interface{}) {
+	if !t.bad {
+		pos := ""
+		if n != nil {
+			pos = t.p.fset.Position(n.Pos()).String()
+			pos = strings.TrimPrefix(pos, repo+"/") + ": "
+		}
+		problem("qframe translation of %s: %s%s", t.f.spec.fn, pos, fmt.Sprintf(format, a...))
+	}
+	t.bad = true
+}
+
+func (t *qoTr) src(n ast.Node) string { return gcSrc(t.p.fset, n) }
+
+func (t *qoTr) tmp() string {
+	t.ntmp++
+	return fmt.Sprintf("t%d", t.ntmp)
+}
+
+func (t *qoTr) resolve(e ast.Expr) *qoT {
+	ty := qoResolve(t.f.spec.pkg, t.src(e))
+	if ty.k == "bad" {
+		t.fail(e, "type outside the scheme: %s", t.src(e))
+	}
+	return ty
+}
+
+func (t *qoTr) coerce(n ast.Node, text string, have, want *qoT) string {
+	if have.k == "bad" || want.k == "bad" {
+		return text
+	}
+	if have.same(want) {
+		return text
+	}
+	if have.k == "nil" && (want.k == "err" || want.k == "slice" || want.k == "map" || want.k == "col" || want.k == "optstr") {
+		z, _ := want.zero()
+		return z
+	}
+	if want.k == "dyn" { // a value stored in an interface{}: tagged with its type
+		for _, d := range qoDyn {
+			if d.ty.same(have) {
+				return "(" + d.ctor + " " + text + ")"
+			}
+		}
+	}
+	if have.k == "ecol" && want.k == "col" { // an ecolumn.Column stored as a column.Column
+		return "(ecolumn_as_Column " + text + ")"
+	}
+	t.fail(n, "a value of type %s stands where %s is expected: %s", have.coq(), want.coq(), t.src(n))
+	return text
+}
+
+func (t *qoTr) declare(n ast.Node, c *qoCtx, name string, ty *qoT) string {
+	if name == "_" {
+		return "_"
+	}
+	if v, ok := c.lookup(name); ok && v.depth < c.depth {
+		t.fail(n, "the declaration of %s in an inner block shadows a variable", name)
+	} else if ok && !v.ty.same(ty) {
+		t.fail(n, "the variable %s is declared again with another type", name)
+	}
+	c.vars = append(c.vars, qoVar{name, "v_" + name, ty, c.depth})
+	return "v_" + name
+}
+
+// ------------------------------------------------------------------ expressions
+
+func (t *qoTr) pure(e ast.Expr, c qoCtx) (string, *qoT) {
+	var pre []string
+	x, ty := t.expr(e, c, &pre)
+	if len(pre) != 0 {
+		t.fail(e, "an expression that can panic stands where a pure one is needed: %s", t.src(e))
+	}
+	return x, ty
+}
+
+func (t *qoTr) expr(e ast.Expr, c qoCtx, pre *[]string) (string, *qoT) {
+	switch x := e.(type) {
+	case *ast.ParenExpr:
+		return t.expr(x.X, c, pre)
+	case *ast.BasicLit:
+		switch x.Kind {
+		case token.INT:
+			if strings.Trim(x.Value, "0123456789") == "" {
+				return x.Value, qoK("int")
+			}
+		case token.STRING:
+			if len(x.Value) >= 2 && (x.Value[0] == '"' || x.Value[0] == '`') && !strings.Contains(x.Value, "\\") {
+				return coqBytes(x.Value[1 : len(x.Value)-1]), qoK("string")
+			}
+		}
+		t.fail(e, "literal outside the scheme: %s", x.Value)
+		return "0", qoBad
+	case *ast.Ident:
+		switch x.Name {
+		case "nil":
+			return "None", qoK("nil")
+		case "true", "false":
+			if _, shadowed := c.lookup(x.Name); !shadowed {
+				return x.Name, qoK("bool")
+			}
+		}
+		v, ok := c.lookup(x.Name)
+		if !ok {
+			t.fail(e, "unknown identifier %s", x.Name)
+			return "0", qoBad
+		}
+		return v.coq, v.ty
+	case *ast.SelectorExpr:
+		y, ty := t.expr(x.X, c, pre)
+		if ty.k == "struct" {
+			st := qoStructOf(ty.sname)
+			for _, f := range st.fields {
+				if f.name == x.Sel.Name {
+					return fmt.Sprintf("(gq_%s_%s %s)", st.name, f.name, y), f.ty
+				}
+			}
+		}
+		t.fail(e, "selector outside the scheme: %s", t.src(e))
+		return "0", qoBad
+	case *ast.UnaryExpr:
+		switch x.Op {
+		case token.NOT:
+			y, ty := t.expr(x.X, c, pre)
+			t.coerce(x.X, y, ty, qoK("bool"))
+			return "(negb " + y + ")", qoK("bool")
+		case token.SUB:
+			y, ty := t.expr(x.X, c, pre)
+			t.coerce(x.X, y, ty, qoK("int"))
+			return "(- " + y + ")", qoK("int")
+		case token.AND: // &s[i], &s for a string: the pointer is its pointee (strings are never written)
+			switch x.X.(type) {
+			case *ast.IndexExpr, *ast.Ident:
+				y, ty := t.expr(x.X, c, pre)
+				if ty.k == "string" {
+					return "(Some " + y + ")", qoK("optstr")
+				}
+			}
+		}
+	case *ast.FuncLit:
+		return t.funcLit(x, c)
+	case *ast.IndexExpr:
+		s, ty := t.expr(x.X, c, pre)
+		switch ty.k {
+		case "slice":
+			i, ti := t.expr(x.Index, c, pre)
+			i = t.position(x.Index, i, ti)
+			v := t.tmp()
+			*pre = append(*pre, fmt.Sprintf("do %s <- gq_index %s %s;", v, s, i))
+			return v, ty.elem
+		case "map":
+			k, tk := t.expr(x.Index, c, pre)
+			t.coerce(x.Index, k, tk, qoK("string"))
+			z, ok := ty.elem.zero()
+			if !ok {
+				t.fail(e, "a map read whose element has no zero in the scheme")
+			}
+			return fmt.Sprintf("(gq_mget_or %s %s %s)", z, s, k), ty.elem
+		}
+		t.fail(e, "index into something that is neither a slice nor a map: %s", t.src(e))
+		return "0", qoBad
+	case *ast.SliceExpr:
+		if x.Low != nil && x.High != nil && x.Max == nil {
+			s, ty := t.expr(x.X, c, pre)
+			if ty.k == "slice" {
+				a, ta := t.expr(x.Low, c, pre)
+				b, tb := t.expr(x.High, c, pre)
+				t.coerce(x.Low, a, ta, qoK("int"))
+				t.coerce(x.High, b, tb, qoK("int"))
+				v := t.tmp()
+				*pre = append(*pre, fmt.Sprintf("do %s <- gq_slice %s %s %s;", v, s, a, b))
+				return v, ty
+			}
+		}
+		t.fail(e, "slice expression outside the scheme: %s", t.src(e))
+		return "[]", qoBad
+	case *ast.CompositeLit:
+		if x.Type != nil && t.src(x.Type) == "struct{}" && len(x.Elts) == 0 {
+			return "tt", qoK("unit")
+		}
+		var st *qoStruct
+		if x.Type != nil {
+			st = qoStructOf(t.src(x.Type))
+		}
+		if st == nil || t.f.spec.pkg != qoRoot || strings.Contains(st.key, ".") {
+			t.fail(e, "composite literal outside the scheme: %s", t.src(e))
+			return "0", qoBad
+		}
+		vals := map[string]string{}
+		for _, el := range x.Elts {
+			kv, ok := el.(*ast.KeyValueExpr)
+			if !ok {
+				t.fail(el, "composite literal without field names")
+				continue
+			}
+			name := t.src(kv.Key)
+			found := false
+			for _, f := range st.fields {
+				if f.name == name {
+					found = true
+					if _, dup := vals[name]; dup {
+						t.fail(el, "field %s given twice", name)
+					}
+					y, ty := t.expr(kv.Value, c, pre)
+					vals[name] = t.coerce(kv.Value, y, ty, f.ty)
+				}
+			}
+			if !found {
+				t.fail(el, "unknown field %s", name)
+			}
+		}
+		parts := []string{"gq_mk_" + st.name}
+		for _, f := range st.fields {
+			if v, ok := vals[f.name]; ok {
+				parts = append(parts, v)
+			} else if z, ok := f.ty.zero(); ok {
+				parts = append(parts, z)
+			} else {
+				t.fail(e, "field %s without a value has no zero in the scheme", f.name)
+			}
+		}
+		return "(" + strings.Join(parts, " ") + ")", &qoT{k: "struct", sname: st.key}
+	case *ast.BinaryExpr:
+		return t.binary(x, c, pre)
+	case *ast.CallExpr:
+		return t.call(x, c, pre)
+	}
+	t.fail(e, "expression outside the scheme: %s", t.src(e))
+	return "0", qoBad
+}
+
+// position: an index expression; a row id used as a position goes through id_int
+func (t *qoTr) position(n ast.Node, text string, ty *qoT) string {
+	if ty.k == "id" {
+		return "(id_int " + text + ")"
+	}
+	return t.coerce(n, text, ty, qoK("int"))
+}
+
+// funcLit: func() T { body }.  Without stores into captured variables it is gq_func0_pure e (the body must be a
+// single return of an expression that cannot panic).  With stores (a counter): the captured variables that the body
+// assigns are its state; allowed only inside a return statement of the enclosing function, which therefore never
+// sees those variables again.
+func (t *qoTr) funcLit(x *ast.FuncLit, c qoCtx) (string, *qoT) {
+	if x.Type.Params != nil && len(x.Type.Params.List) != 0 || x.Type.Results == nil || len(x.Type.Results.List) != 1 || len(x.Type.Results.List[0].Names) != 0 {
+		t.fail(x, "function literal that is not func() T")
+		return "0", qoBad
+	}
+	rt := t.resolve(x.Type.Results.List[0].Type)
+	fty := &qoT{k: "func0", elem: rt}
+	state := t.assigned(c, x.Body)
+	if len(state) == 0 {
+		if len(x.Body.List) == 1 {
+			if rs, ok := x.Body.List[0].(*ast.ReturnStmt); ok && len(rs.Results) == 1 {
+				y, ty := t.pure(rs.Results[0], c)
+				return "(gq_func0_pure " + t.coerce(rs.Results[0], y, ty, rt) + ")", fty
+			}
+		}
+		t.fail(x, "function literal without state that is not a single return")
+		return "0", qoBad
+	}
+	if !t.inReturn {
+		t.fail(x, "a function literal that stores into captured variables outside a return statement")
+	}
+	savedRes, savedPtrs := t.f.res, t.f.ptrs
+	t.f.res, t.f.ptrs = []*qoT{rt}, state
+	inner := c.inner()
+	inner.top = false
+	wasRet := t.inReturn
+	t.inReturn = false
+	body := t.stmts(x.Body.List, inner, func(c2 qoCtx) string {
+		t.fail(x, "the function literal can fall off its end")
+		return "Panic"
+	})
+	t.inReturn = wasRet
+	t.f.res, t.f.ptrs = savedRes, savedPtrs
+	pat := gcTuple(qoCoqNames(state))
+	if len(state) > 1 {
+		pat = "'" + pat
+	}
+	return fmt.Sprintf("(gq_mk_func0 %s (fun %s =>\n%s))", gcTuple(qoCoqNames(state)), pat, gsIndent(body)), fty
+}
+
+func (t *qoTr) binary(x *ast.BinaryExpr, c qoCtx, pre *[]string) (string, *qoT) {
+	if x.Op == token.LAND || x.Op == token.LOR {
+		a, ta := t.expr(x.X, c, pre)
+		t.coerce(x.X, a, ta, qoK("bool"))
+		var preB []string
+		b, tb := t.expr(x.Y, c, &preB)
+		t.coerce(x.Y, b, tb, qoK("bool"))
+		if len(preB) == 0 {
+			if x.Op == token.LAND {
+				return fmt.Sprintf("(if %s then %s else false)", a, b), qoK("bool")
+			}
+			return fmt.Sprintf("(if %s then true else %s)", a, b), qoK("bool")
+		}
+		v := t.tmp()
+		right := "(" + strings.Join(preB, " ") + " Ok " + b + ")"
+		if x.Op == token.LAND {
+			*pre = append(*pre, fmt.Sprintf("do %s <- (if %s then %s else Ok false);", v, a, right))
+		} else {
+			*pre = append(*pre, fmt.Sprintf("do %s <- (if %s then Ok true else %s);", v, a, right))
+		}
+		return v, qoK("bool")
+	}
+	a, ta := t.expr(x.X, c, pre)
+	b, tb := t.expr(x.Y, c, pre)
+	if ta.k == "bad" || tb.k == "bad" {
+		return "0", qoBad
+	}
+	isNum := func(k string) bool { return k == "int" }
+	switch x.Op {
+	case token.ADD, token.SUB:
+		if isNum(ta.k) && isNum(tb.k) {
+			op := "+"
+			if x.Op == token.SUB {
+				op = "-"
+			}
+			return fmt.Sprintf("(%s %s %s)", a, op, b), qoK("int")
+		}
+	case token.LSS, token.LEQ, token.GTR, token.GEQ:
+		if isNum(ta.k) && isNum(tb.k) {
+			switch x.Op {
+			case token.LSS:
+				return fmt.Sprintf("(%s <? %s)", a, b), qoK("bool")
+			case token.LEQ:
+				return fmt.Sprintf("(%s <=? %s)", a, b), qoK("bool")
+			case token.GTR:
+				return fmt.Sprintf("(%s <? %s)", b, a), qoK("bool")
+			default:
+				return fmt.Sprintf("(%s <=? %s)", b, a), qoK("bool")
+			}
+		}
+	case token.EQL, token.NEQ:
+		text := ""
+		switch {
+		case tb.k == "nil" && ta.k == "err":
+			text = "(gq_isnil " + a + ")"
+		case ta.k == "nil" && tb.k == "err":
+			text = "(gq_isnil " + b + ")"
+		case isNum(ta.k) && isNum(tb.k):
+			text = fmt.Sprintf("(%s =? %s)", a, b)
+		case ta.k == "bool" && tb.k == "bool":
+			text = fmt.Sprintf("(Bool.eqb %s %s)", a, b)
+		case ta.k == "string" && tb.k == "string":
+			text = fmt.Sprintf("(bytes_eqb %s %s)", a, b)
+		}
+		if text != "" {
+			if x.Op == token.NEQ {
+				text = "(negb " + text + ")"
+			}
+			return text, qoK("bool")
+		}
+	}
+	t.fail(x, "operator outside the scheme (types %s, %s): %s", ta.k, tb.k, t.src(x))
+	return "0", qoBad
+}
+
+// ------------------------------------------------------------------ calls
+
+func (t *qoTr) callTranslated(g *qoFunc, x *ast.CallExpr, recv string, c qoCtx, pre *[]string) (string, *qoT) {
+	if !g.done || g.text == "" {
+		t.fail(x, "call of %s, which is not translated before this function", g.spec.fn)
+		return "0", qoBad
+	}
+	variadic := false
+	if n := len(g.fd.Type.Params.List); n > 0 {
+		_, variadic = g.fd.Type.Params.List[n-1].Type.(*ast.Ellipsis)
+	}
+	parts := []string{g.coq}
+	if recv != "" {
+		parts = append(parts, recv)
+	}
+	if variadic && !x.Ellipsis.IsValid() && len(g.params) == 1 { // f(a, b): the elements of the variadic parameter
+		var els []string
+		for _, a := range x.Args {
+			y, ty := t.expr(a, c, pre)
+			els = append(els, t.coerce(a, y, ty, g.params[0].ty.elem))
+		}
+		v := t.tmp()
+		*pre = append(*pre, fmt.Sprintf("do %s <- %s [%s];", v, strings.Join(parts, " "), strings.Join(els, "; ")))
+		if len(g.res) != 1 || len(g.ptrs) != 0 {
+			t.fail(x, "call outside the scheme: %s", t.src(x))
+		}
+		return v, g.res[0]
+	}
+	if len(x.Args) != len(g.params) {
+		t.fail(x, "call of %s with %d arguments (it has %d parameters)", g.spec.fn, len(x.Args), len(g.params))
+		return "0", qoBad
+	}
+	if variadic != x.Ellipsis.IsValid() {
+		t.fail(x, "a variadic parameter must be passed as s...")
+	}
+	t.lastPtrArgs = nil
+	for i, a := range x.Args {
+		y, ty := t.expr(a, c, pre)
+		if g.params[i].ty.ptr {
+			id, isId := a.(*ast.Ident)
+			_, isCall := a.(*ast.CallExpr)
+			switch {
+			case isId && ty.ptr:
+				t.lastPtrArgs = append(t.lastPtrArgs, "v_"+id.Name)
+			case isCall && ty.ptr: // a pointer nobody else holds: what the callee leaves in it is dropped
+				t.lastPtrArgs = append(t.lastPtrArgs, "_")
+			default:
+				t.fail(a, "the pointer argument of %s must be a pointer variable or a call that makes one", g.spec.fn)
+			}
+		}
+		parts = append(parts, t.coerce(a, y, ty, g.params[i].ty))
+	}
+	v := t.tmp()
+	var rty *qoT
+	all := append([]*qoT{}, g.res...)
+	for _, pv := range g.ptrs {
+		all = append(all, pv.ty)
+	}
+	if len(all) == 1 {
+		rty = all[0]
+	} else {
+		rty = &qoT{k: "tuple", parts: all}
+	}
+	*pre = append(*pre, fmt.Sprintf("do %s <- %s;", v, strings.Join(parts, " ")))
+	return v, rty
+}
+
+func (t *qoTr) call(x *ast.CallExpr, c qoCtx, pre *[]string) (string, *qoT) {
+	fun := t.src(x.Fun)
+	if v, isVar := c.lookup(fun); isVar {
+		if v.ty.k == "func0" && len(x.Args) == 0 { // f(): the result and the function value in its next state
+			r := t.tmp()
+			*pre = append(*pre, fmt.Sprintf("do (%s, %s) <- gq_func0_call %s;", r, v.coq, v.coq))
+			return r, v.ty.elem
+		}
+		t.fail(x, "call of a variable: %s", fun)
+		return "0", qoBad
+	}
+	if fun == "string" && len(x.Args) == 1 {
+		y, ty := t.expr(x.Args[0], c, pre)
+		t.coerce(x.Args[0], y, ty, qoK("string"))
+		return y, qoK("string")
+	}
+	switch fun {
+	case "len":
+		if len(x.Args) == 1 {
+			s, ty := t.expr(x.Args[0], c, pre)
+			if ty.k == "slice" || ty.k == "map" || ty.k == "string" {
+				return "(Z.of_nat (length " + s + "))", qoK("int")
+			}
+		}
+		t.fail(x, "len outside the scheme: %s", t.src(x))
+		return "0", qoBad
+	case "append":
+		if len(x.Args) == 2 && !x.Ellipsis.IsValid() {
+			s, ty := t.expr(x.Args[0], c, pre)
+			v, tv := t.expr(x.Args[1], c, pre)
+			if ty.k == "slice" {
+				v = t.coerce(x.Args[1], v, tv, ty.elem)
+				return "(" + s + " ++ [" + v + "])", ty
+			}
+		}
+		t.fail(x, "append outside the scheme: %s", t.src(x))
+		return "[]", qoBad
+	case "make":
+		if len(x.Args) >= 1 && len(x.Args) <= 3 {
+			ty := t.resolve(x.Args[0])
+			if ty.k == "map" && len(x.Args) <= 2 {
+				if len(x.Args) == 2 { // the size hint: evaluated, no effect
+					n, tn := t.pure(x.Args[1], c)
+					t.coerce(x.Args[1], n, tn, qoK("int"))
+				}
+				return "[]", ty
+			}
+			if ty.k == "slice" && len(x.Args) >= 2 {
+				n, tn := t.expr(x.Args[1], c, pre)
+				t.coerce(x.Args[1], n, tn, qoK("int"))
+				if len(x.Args) == 2 && n == "0" {
+					return "[]", ty
+				}
+				cp := n
+				if len(x.Args) == 3 {
+					var tc *qoT
+					cp, tc = t.expr(x.Args[2], c, pre)
+					t.coerce(x.Args[2], cp, tc, qoK("int"))
+				}
+				z, ok := ty.elem.zero()
+				if !ok {
+					t.fail(x, "make of a slice whose element has no zero in the scheme: %s", t.src(x))
+				}
+				v := t.tmp()
+				*pre = append(*pre, fmt.Sprintf("do %s <- gq_make %s %s %s;", v, z, n, cp))
+				return v, ty
+			}
+		}
+		t.fail(x, "make outside the scheme: %s", t.src(x))
+		return "[]", qoBad
+	case "qerrors.New":
+		if len(x.Args) >= 2 {
+			a, ta := t.expr(x.Args[0], c, pre)
+			b, tb := t.expr(x.Args[1], c, pre)
+			t.coerce(x.Args[0], a, ta, qoK("string"))
+			t.coerce(x.Args[1], b, tb, qoK("string"))
+			for _, p := range x.Args[2:] { // format arguments: only the message text
+				if !qoEffectFree(p) {
+					t.fail(p, "a format argument that is not free of effects: %s", t.src(p))
+				}
+			}
+			return fmt.Sprintf("(Some (new_error %s %s))", a, b), qoK("err")
+		}
+	case "qerrors.Propagate":
+		if len(x.Args) == 2 {
+			// fmt.Sprintf(format, effect-free arguments...) as the operation: represented by its format string
+			if ce, ok := x.Args[0].(*ast.CallExpr); ok && t.src(ce.Fun) == "fmt.Sprintf" && len(ce.Args) >= 1 {
+				free := true
+				for _, p := range ce.Args[1:] {
+					free = free && qoEffectFree(p)
+				}
+				if lit, isLit := ce.Args[0].(*ast.BasicLit); isLit && lit.Kind == token.STRING && free {
+					a, _ := t.expr(lit, c, pre)
+					b, tb := t.expr(x.Args[1], c, pre)
+					t.coerce(x.Args[1], b, tb, qoK("err"))
+					return fmt.Sprintf("(Some (propagate %s %s))", a, b), qoK("err")
+				}
+			}
+			a, ta := t.expr(x.Args[0], c, pre)
+			b, tb := t.expr(x.Args[1], c, pre)
+			t.coerce(x.Args[0], a, ta, qoK("string"))
+			t.coerce(x.Args[1], b, tb, qoK("err"))
+			return fmt.Sprintf("(Some (propagate %s %s))", a, b), qoK("err")
+		}
+	case "qfstrings.CheckName":
+		if len(x.Args) == 1 && t.f.spec.pkg == qoRoot {
+			a, ta := t.expr(x.Args[0], c, pre)
+			t.coerce(x.Args[0], a, ta, qoK("string"))
+			return "(gq_CheckName " + a + ")", qoK("err")
+		}
+	case "unknownCol":
+		if len(x.Args) == 1 && t.f.spec.pkg == qoRoot {
+			a, ta := t.expr(x.Args[0], c, pre)
+			t.coerce(x.Args[0], a, ta, qoK("string"))
+			return "(unknownCol " + a + ")", qoK("string")
+		}
+	}
+	if fun == "uint32" && len(x.Args) == 1 {
+		y, ty := t.expr(x.Args[0], c, pre)
+		t.coerce(x.Args[0], y, ty, qoK("int"))
+		return "(gq_u32 " + y + ")", qoK("int")
+	}
+	// a translated free function
+	if id, ok := x.Fun.(*ast.Ident); ok {
+		if g := qoFuncs[t.f.spec.pkg+":"+id.Name]; g != nil && g.fd != nil {
+			return t.callTranslated(g, x, "", c, pre)
+		}
+		t.fail(x, "call of a function outside the scheme: %s", fun)
+		return "0", qoBad
+	}
+	sel, ok := x.Fun.(*ast.SelectorExpr)
+	if !ok {
+		t.fail(x, "call outside the scheme: %s", t.src(x))
+		return "0", qoBad
+	}
+	if id, ok := sel.X.(*ast.Ident); ok && id.Name == "qfstrings" && t.f.spec.pkg == qoRoot {
+		if _, isVar := c.lookup("qfstrings"); !isVar {
+			if g := qoFuncs[qoStrPkg+":"+sel.Sel.Name]; g != nil && g.fd != nil {
+				return t.callTranslated(g, x, "", c, pre)
+			}
+			t.fail(x, "call of a function outside the scheme: %s", fun)
+			return "0", qoBad
+		}
+	}
+	if id, ok := sel.X.(*ast.Ident); ok && t.f.spec.pkg == qoRoot {
+		if _, isVar := c.lookup(id.Name); !isVar {
+			if name, params, res, ok := t.boundaryVar(x, id.Name, sel.Sel.Name); ok {
+				if len(x.Args) != len(params) || x.Ellipsis.IsValid() {
+					t.fail(x, "call of %s with %d arguments", fun, len(x.Args))
+					return "0", qoBad
+				}
+				parts := []string{name}
+				for i, a := range x.Args {
+					y, ty := t.expr(a, c, pre)
+					parts = append(parts, t.coerce(a, y, ty, params[i]))
+				}
+				v := t.tmp()
+				*pre = append(*pre, fmt.Sprintf("do %s <- %s;", v, strings.Join(parts, " ")))
+				return v, res
+			}
+		}
+	}
+	m := sel.Sel.Name
+	r, tr := t.expr(sel.X, c, pre)
+	if tr.k == "struct" && qoColMethods[m] != "" && t.p.funcs[tr.sname+"."+m] == nil { // promoted from the embedded Column
+		for _, f := range qoStructOf(tr.sname).fields {
+			if f.name == "Column" && f.ty.k == "col" {
+				r, tr = fmt.Sprintf("(gq_%s_Column %s)", qoStructOf(tr.sname).name, r), f.ty
+			}
+		}
+	}
+	switch {
+	case tr.k == "col" && m == "Len" && len(x.Args) == 0:
+		v := t.tmp()
+		*pre = append(*pre, fmt.Sprintf("do %s <- col_Len %s;", v, r))
+		return v, qoK("int")
+	case tr.k == "col" && (m == "Apply1" || m == "Apply2"):
+		params := []*qoT{qoK("dyn"), qoSlice(qoK("id"))}
+		res := &qoT{k: "tuple", parts: []*qoT{qoK("dyn"), qoK("err")}}
+		if m == "Apply2" {
+			params = []*qoT{qoK("dyn"), qoK("col"), qoSlice(qoK("id"))}
+			res = &qoT{k: "tuple", parts: []*qoT{qoK("col"), qoK("err")}}
+		}
+		if len(x.Args) != len(params) {
+			break
+		}
+		name := "col_" + m
+		if !qoBoundaryDeclared[name] {
+			qoBoundaryDeclared[name] = true
+			sig := "C -> "
+			for _, p := range params {
+				sig += p.coq() + " -> "
+			}
+			t.f.bvars = append(t.f.bvars, fmt.Sprintf("Variable %s : %soutcome %s.   (* c.%s(..) of a column.Column: below the abstraction boundary *)", name, sig, res.coq(), m))
+		}
+		parts := []string{name, r}
+		for i, a := range x.Args {
+			y, ty := t.expr(a, c, pre)
+			parts = append(parts, t.coerce(a, y, ty, params[i]))
+		}
+		v := t.tmp()
+		*pre = append(*pre, fmt.Sprintf("do %s <- %s;", v, strings.Join(parts, " ")))
+		return v, res
+	case tr.k == "struct":
+		if g := qoFuncs[qoRoot+":"+tr.sname+"."+m]; g != nil && g.fd != nil {
+			return t.callTranslated(g, x, r, c, pre)
+		}
+		if tr.sname == "QFrame" {
+			for _, fb := range qoFrameBoundary {
+				if fb.fn != m {
+					continue
+				}
+				fd := t.p.funcs["QFrame."+m]
+				if fd == nil {
+					break
+				}
+				var params []*qoT
+				for _, fl := range fd.Type.Params.List {
+					ty := t.resolve(fl.Type)
+					for range fl.Names {
+						params = append(params, ty)
+					}
+				}
+				if len(params) != len(x.Args) || x.Ellipsis.IsValid() {
+					break
+				}
+				name := "qf_" + m
+				if !qoBoundaryDeclared[name] {
+					qoBoundaryDeclared[name] = true
+					sig := tr.coq() + " -> "
+					for _, p := range params {
+						sig += p.coq() + " -> "
+					}
+					t.f.bvars = append(t.f.bvars, fmt.Sprintf("Variable %s : %soutcome %s.   (* qf.%s(..): not translated here *)", name, sig, tr.coq(), m))
+				}
+				parts := []string{name, r}
+				for i, a := range x.Args {
+					y, ty := t.expr(a, c, pre)
+					parts = append(parts, t.coerce(a, y, ty, params[i]))
+				}
+				v := t.tmp()
+				*pre = append(*pre, fmt.Sprintf("do %s <- %s;", v, strings.Join(parts, " ")))
+				return v, &qoT{k: "struct", sname: "QFrame"}
+			}
+		}
+	case tr.k == "map" && tr.sname != "":
+		if g := qoFuncs[qoStrPkg+":"+tr.sname+"."+m]; g != nil && g.fd != nil {
+			return t.callTranslated(g, x, r, c, pre)
+		}
+	case tr.k == "slice" && tr.elem.k == "id":
+		if m == "Len" && len(x.Args) == 0 {
+			return "(Z.of_nat (length " + r + "))", qoK("int")
+		}
+	}
+	t.fail(x, "call outside the scheme: %s", t.src(x))
+	return "0", qoBad
+}
+
+// ------------------------------------------------------------------ statements
+
+// qoContainsReturn: a return statement of this function (not of a function literal inside it)
+func qoContainsReturn(n ast.Node) bool {
+	found := false
+	ast.Inspect(n, func(m ast.Node) bool {
+		switch m.(type) {
+		case *ast.FuncLit:
+			return false
+		case *ast.ReturnStmt:
+			found = true
+		}
+		return !found
+	})
+	return found
+}
+
+// qoAssignedNames: the names stored into and the names declared inside the nodes
+func qoAssignedNames(nodes ...ast.Node) (assigned, declared map[string]bool) {
+	assigned, declared = gcAssignedNames(nodes...)
+	for _, n := range nodes {
+		ast.Inspect(n, func(m ast.Node) bool {
+			if ce, ok := m.(*ast.CallExpr); ok {
+				if id, ok := ce.Fun.(*ast.Ident); ok && len(ce.Args) == 0 {
+					assigned[id.Name] = true // f(): a function value changes its state
+				}
+			}
+			es, ok := m.(*ast.ExprStmt)
+			if !ok {
+				return true
+			}
+			ce, ok := es.X.(*ast.CallExpr)
+			if !ok {
+				return true
+			}
+			if id, ok := ce.Fun.(*ast.Ident); ok && id.Name == "delete" && len(ce.Args) > 0 {
+				assigned[gcRootIdent(ce.Args[0])] = true
+			}
+			if se, ok := ce.Fun.(*ast.SelectorExpr); ok {
+				if id, ok := se.X.(*ast.Ident); ok && id.Name == "sort" && len(ce.Args) > 0 {
+					assigned[gcRootIdent(ce.Args[0])] = true
+				} else if se.Sel.Name == "Add" {
+					assigned[gcRootIdent(se.X)] = true
+				}
+			}
+			return true
+		})
+	}
+	delete(declared, "_")
+	return
+}
+
+func (t *qoTr) assigned(c qoCtx, nodes ...ast.Node) []qoVar {
+	as, decl := qoAssignedNames(nodes...)
+	var out []qoVar
+	seen := map[string]bool{}
+	for i := len(c.vars) - 1; i >= 0; i-- {
+		v := c.vars[i]
+		if seen[v.name] {
+			continue
+		}
+		seen[v.name] = true
+		if as[v.name] {
+			if decl[v.name] {
+				t.fail(nodes[0], "the variable %s is stored into in a block that also declares a variable of that name", v.name)
+			}
+			out = append([]qoVar{v}, out...)
+		}
+	}
+	if as["*"] {
+		t.fail(nodes[0], "store through a pointer")
+	}
+	return out
+}
+
+func qoCoqNames(vs []qoVar) []string {
+	var out []string
+	for _, v := range vs {
+		out = append(out, v.coq)
+	}
+	return out
+}
+
+func qoCoqTypes(vs []qoVar) []string {
+	var out []string
+	for _, v := range vs {
+		out = append(out, v.ty.coq())
+	}
+	return out
+}
+
+// lvalue path: the text of the current value and its type, no effects
+func (t *qoTr) lvalue(e ast.Expr, c qoCtx) (string, *qoT) {
+	switch x := e.(type) {
+	case *ast.Ident, *ast.SelectorExpr:
+		return t.pure(x, c)
+	}
+	t.fail(e, "store target outside the scheme: %s", t.src(e))
+	return "0", qoBad
+}
+
+// store emits the lines that put val into the lvalue e
+func (t *qoTr) store(e ast.Expr, val string, c qoCtx, out *[]string) {
+	switch x := e.(type) {
+	case *ast.Ident:
+		v, ok := c.lookup(x.Name)
+		if !ok {
+			t.fail(e, "store into something that is not a variable: %s", x.Name)
+			return
+		}
+		*out = append(*out, fmt.Sprintf("let %s := %s in", v.coq, val))
+		return
+	case *ast.SelectorExpr:
+		y, ty := t.lvalue(x.X, c)
+		if ty.k == "struct" {
+			st := qoStructOf(ty.sname)
+			for _, f := range st.fields {
+				if f.name == x.Sel.Name {
+					t.store(x.X, fmt.Sprintf("(gq_%s_set_%s %s %s)", st.name, f.name, y, val), c, out)
+					return
+				}
+			}
+		}
+	case *ast.IndexExpr:
+		y, ty := t.lvalue(x.X, c)
+		if !t.isFresh(x.X, c) {
+			t.fail(e, "store into %s, which this function did not make (slices and maps are references: the store would be visible elsewhere)", t.src(x.X))
+		}
+		switch ty.k {
+		case "slice":
+			i, ti := t.expr(x.Index, c, out)
+			i = t.position(x.Index, i, ti)
+			v := t.tmp()
+			*out = append(*out, fmt.Sprintf("do %s <- gq_update %s %s %s;", v, y, i, val))
+			t.store(x.X, v, c, out)
+			return
+		case "map":
+			k, tk := t.expr(x.Index, c, out)
+			t.coerce(x.Index, k, tk, qoK("string"))
+			t.store(x.X, fmt.Sprintf("(gq_mset %s %s %s)", y, k, val), c, out)
+			return
+		}
+	}
+	t.fail(e, "store target outside the scheme: %s", t.src(e))
+}
+
+func qoIsMake(e ast.Expr) bool {
+	ce, ok := e.(*ast.CallExpr)
+	if !ok {
+		return false
+	}
+	id, ok := ce.Fun.(*ast.Ident)
+	return ok && id.Name == "make"
+}
+
+// noteAssign keeps the set of paths that hold an array or map this function made
+func (t *qoTr) noteAssign(lhs ast.Expr, rhs ast.Expr) {
+	l := t.src(lhs)
+	keep := false
+	if qoIsMake(rhs) {
+		keep = true
+	} else if ce, ok := rhs.(*ast.CallExpr); ok && t.src(ce.Fun) == "append" && len(ce.Args) > 0 && t.src(ce.Args[0]) == l && t.fresh[l] {
+		keep = true
+	}
+	for k := range t.fresh {
+		if k == l || strings.HasPrefix(k, l+".") {
+			delete(t.fresh, k)
+		}
+	}
+	if keep {
+		t.fresh[l] = true
+	}
+}
+
+// simple translates a statement without control flow into lines that end in "in" or ";"
+func (t *qoTr) simple(st ast.Stmt, c *qoCtx) ([]string, bool) {
+	var out []string
+	switch s := st.(type) {
+	case *ast.AssignStmt:
+		if s.Tok == token.DEFINE {
+			// v, ok := m[k]
+			if len(s.Lhs) == 2 && len(s.Rhs) == 1 {
+				if ie, ok := s.Rhs[0].(*ast.IndexExpr); ok {
+					m, tm := t.expr(ie.X, *c, &out)
+					if tm.k != "map" {
+						return nil, false
+					}
+					k, tk := t.expr(ie.Index, *c, &out)
+					t.coerce(ie.Index, k, tk, qoK("string"))
+					id0, ok0 := s.Lhs[0].(*ast.Ident)
+					id1, ok1 := s.Lhs[1].(*ast.Ident)
+					if !ok0 || !ok1 {
+						return nil, false
+					}
+					if id0.Name != "_" {
+						z, ok := tm.elem.zero()
+						if !ok {
+							t.fail(st, "a map read whose element has no zero in the scheme")
+						}
+						name := t.declare(st, c, id0.Name, tm.elem)
+						out = append(out, fmt.Sprintf("let %s := (gq_mget_or %s %s %s) in", name, z, m, k))
+					}
+					if id1.Name != "_" {
+						name := t.declare(st, c, id1.Name, qoK("bool"))
+						out = append(out, fmt.Sprintf("let %s := (gq_mhas %s %s) in", name, m, k))
+					}
+					return out, true
+				}
+				if _, ok := s.Rhs[0].(*ast.CallExpr); ok {
+					t.lastPtrArgs = nil
+					y, ty := t.expr(s.Rhs[0], *c, &out)
+					ptrArgs := t.lastPtrArgs
+					if ty.k != "tuple" || len(ty.parts) != len(s.Lhs)+len(ptrArgs) {
+						t.fail(st, "a call that does not answer %d values: %s", len(s.Lhs), t.src(s.Rhs[0]))
+						return out, true
+					}
+					// the last pre line binds y: rebind it as a pattern
+					var names []string
+					for i, l := range s.Lhs {
+						id, ok := l.(*ast.Ident)
+						if !ok {
+							return nil, false
+						}
+						names = append(names, t.declareOrAssign(st, c, id.Name, ty.parts[i]))
+					}
+					names = append(names, ptrArgs...)
+					last := out[len(out)-1]
+					out[len(out)-1] = strings.Replace(last, "do "+y+" <-", "do "+gcTuple(names)+" <-", 1)
+					return out, true
+				}
+			}
+			if len(s.Lhs) != len(s.Rhs) {
+				return nil, false
+			}
+			var texts []string
+			var tys []*qoT
+			for _, r := range s.Rhs {
+				x, ty := t.expr(r, *c, &out)
+				if (ty.k == "nil" || ty.k == "bad" || ty.k == "tuple") && !t.bad {
+					t.fail(r, "a declaration needs one typed value: %s", t.src(r))
+				}
+				texts = append(texts, x)
+				tys = append(tys, ty)
+			}
+			for i, l := range s.Lhs {
+				id, ok := l.(*ast.Ident)
+				if !ok {
+					return nil, false
+				}
+				for j := i + 1; j < len(texts); j++ {
+					if gsMentions(texts[j], "v_"+id.Name) {
+						t.fail(st, "a parallel declaration whose right side mentions a declared name")
+					}
+				}
+				name := t.declare(l, c, id.Name, tys[i])
+				out = append(out, fmt.Sprintf("let %s := %s in", name, texts[i]))
+				t.noteAssign(l, s.Rhs[i])
+			}
+			return out, true
+		}
+		if s.Tok == token.ASSIGN && len(s.Lhs) >= 2 && len(s.Rhs) == 1 {
+			if _, ok := s.Rhs[0].(*ast.CallExpr); !ok {
+				return nil, false
+			}
+			t.lastPtrArgs = nil
+			y, ty := t.expr(s.Rhs[0], *c, &out)
+			ptrArgs := t.lastPtrArgs
+			if ty.k != "tuple" || len(ty.parts) != len(s.Lhs)+len(ptrArgs) {
+				t.fail(st, "a call that does not answer %d values: %s", len(s.Lhs), t.src(s.Rhs[0]))
+				return out, true
+			}
+			var names []string
+			for range s.Lhs {
+				names = append(names, t.tmp())
+			}
+			all := append(append([]string{}, names...), ptrArgs...)
+			last := out[len(out)-1]
+			out[len(out)-1] = strings.Replace(last, "do "+y+" <-", "do "+gcTuple(all)+" <-", 1)
+			for i, l := range s.Lhs {
+				if id, ok := l.(*ast.Ident); ok && id.Name == "_" {
+					continue
+				}
+				_, lty := t.lvalueAny(l, *c)
+				x := names[i]
+				if lty != nil {
+					x = t.coerce(l, x, ty.parts[i], lty)
+				}
+				t.store(l, x, *c, &out)
+			}
+			return out, true
+		}
+		if s.Tok != token.ASSIGN || len(s.Lhs) != 1 || len(s.Rhs) != 1 {
+			return nil, false
+		}
+		_, lty := t.lvalueAny(s.Lhs[0], *c)
+		x, ty := t.expr(s.Rhs[0], *c, &out)
+		if lty != nil {
+			x = t.coerce(s.Rhs[0], x, ty, lty)
+		}
+		t.store(s.Lhs[0], x, *c, &out)
+		t.noteAssign(s.Lhs[0], s.Rhs[0])
+		return out, true
+	case *ast.DeclStmt:
+		gd, ok := s.Decl.(*ast.GenDecl)
+		if !ok || gd.Tok != token.VAR {
+			return nil, false
+		}
+		for _, sp := range gd.Specs {
+			vs := sp.(*ast.ValueSpec)
+			if vs.Type == nil || len(vs.Values) != 0 {
+				return nil, false
+			}
+			ty := t.resolve(vs.Type)
+			z, ok := ty.zero()
+			if !ok {
+				t.fail(st, "var of a type without zero in the scheme")
+			}
+			for _, id := range vs.Names {
+				name := t.declare(id, c, id.Name, ty)
+				out = append(out, fmt.Sprintf("let %s : %s := %s in", name, ty.coq(), z))
+			}
+		}
+		return out, true
+	case *ast.IncDecStmt:
+		y, ty := t.lvalueAny(s.X, *c)
+		if ty == nil || ty.k != "int" {
+			return nil, false
+		}
+		op := "+"
+		if s.Tok == token.DEC {
+			op = "-"
+		}
+		t.store(s.X, fmt.Sprintf("(%s %s 1)", y, op), *c, &out)
+		return out, true
+	case *ast.ExprStmt:
+		ce, ok := s.X.(*ast.CallExpr)
+		if !ok {
+			return nil, false
+		}
+		fun := t.src(ce.Fun)
+		needFresh := func(e ast.Expr) {
+			if !t.isFresh(e, *c) {
+				t.fail(st, "%s changes %s, which this function did not make (slices and maps are references)", fun, t.src(e))
+			}
+		}
+		switch {
+		case fun == "copy" && len(ce.Args) == 2:
+			d, td := t.lvalue(ce.Args[0], *c)
+			if td.k != "slice" {
+				return nil, false
+			}
+			needFresh(ce.Args[0])
+			x, ty := t.expr(ce.Args[1], *c, &out)
+			t.coerce(ce.Args[1], x, ty, td)
+			t.store(ce.Args[0], fmt.Sprintf("(gq_copy %s %s)", d, x), *c, &out)
+			return out, true
+		case fun == "delete" && len(ce.Args) == 2:
+			d, td := t.lvalue(ce.Args[0], *c)
+			if td.k != "map" {
+				return nil, false
+			}
+			needFresh(ce.Args[0])
+			k, tk := t.expr(ce.Args[1], *c, &out)
+			t.coerce(ce.Args[1], k, tk, qoK("string"))
+			t.store(ce.Args[0], fmt.Sprintf("(gq_mdel %s %s)", d, k), *c, &out)
+			return out, true
+		}
+		if fun == "sort.Strings" && len(ce.Args) == 1 { // sorts in place: the variable sort_strings
+			if _, isVar := c.lookup("sort"); !isVar {
+				d, td := t.lvalue(ce.Args[0], *c)
+				if td.k == "slice" && td.elem.k == "string" {
+					needFresh(ce.Args[0])
+					t.store(ce.Args[0], fmt.Sprintf("(sort_strings %s)", d), *c, &out)
+					return out, true
+				}
+			}
+		}
+		if se, ok := ce.Fun.(*ast.SelectorExpr); ok && se.Sel.Name == "Add" && len(ce.Args) == 1 {
+			d, td := t.lvalue(se.X, *c)
+			if td.k == "map" && td.sname == "StringSet" {
+				needFresh(se.X)
+				k, tk := t.expr(ce.Args[0], *c, &out)
+				t.coerce(ce.Args[0], k, tk, qoK("string"))
+				t.store(se.X, fmt.Sprintf("(gq_mset %s %s tt)", d, k), *c, &out)
+				return out, true
+			}
+		}
+		return nil, false
+	}
+	return nil, false
+}
+
+// lvalueAny: like lvalue but also element targets (answers the type of the stored value, nil when unknown)
+func (t *qoTr) lvalueAny(e ast.Expr, c qoCtx) (string, *qoT) {
+	switch x := e.(type) {
+	case *ast.Ident, *ast.SelectorExpr:
+		return t.lvalue(x, c)
+	case *ast.IndexExpr:
+		_, ty := t.lvalue(x.X, c)
+		if ty.k == "slice" || ty.k == "map" {
+			return "", ty.elem
+		}
+	}
+	return "", nil
+}
+
+// declareOrAssign: in a := with several names, a name of the same scope is assigned
+func (t *qoTr) declareOrAssign(n ast.Node, c *qoCtx, name string, ty *qoT) string {
+	if name == "_" {
+		return "_"
+	}
+	if v, ok := c.lookup(name); ok && v.depth == c.depth && v.ty.same(ty) {
+		return v.coq
+	}
+	return t.declare(n, c, name, ty)
+}
+
+func (t *qoTr) stmts(list []ast.Stmt, c qoCtx, k func(qoCtx) string) string {
+	if len(list) == 0 {
+		return k(c)
+	}
+	st, rest := list[0], list[1:]
+	cont := func(c2 qoCtx) string { return t.stmts(rest, c2, k) }
+	if lines, ok := t.simple(st, &c); ok {
+		return gcJoin(lines, cont(c))
+	}
+	switch x := st.(type) {
+	case *ast.ReturnStmt:
+		if len(rest) != 0 {
+			t.fail(st, "statements after return")
+		}
+		if len(x.Results) != len(t.f.res) {
+			t.fail(st, "return with %d values in a function with %d results", len(x.Results), len(t.f.res))
+			return "Panic"
+		}
+		var pre []string
+		var ys []string
+		t.inReturn = true
+		for i, r := range x.Results {
+			y, ty := t.expr(r, c, &pre)
+			ys = append(ys, t.coerce(r, y, ty, t.f.res[i]))
+		}
+		t.inReturn = false
+		for _, pv := range t.f.ptrs {
+			ys = append(ys, pv.coq)
+		}
+		return gcJoin(pre, "Ok "+gcTuple(ys))
+	case *ast.TypeSwitchStmt:
+		return t.typeSwitch(x, c, cont)
+	case *ast.IfStmt:
+		return t.ifStmt(x, c, cont)
+	case *ast.RangeStmt:
+		return t.rangeStmt(x, c, cont)
+	case *ast.BlockStmt:
+		return t.stmts(x.List, c.inner(), func(c2 qoCtx) string { return cont(c) })
+	}
+	t.fail(st, "statement outside the scheme: %s", strings.SplitN(t.src(st), "\n", 2)[0])
+	return "Panic"
+}
+
+// once: the text of a continuation that several branches share (the same context, so the same text)
+func qoOnce(k func() string) func() string {
+	done, text := false, ""
+	return func() string {
+		if !done {
+			text, done = k(), true
+		}
+		return text
+	}
+}
+
+// typeAssertInit recognises  v, ok := x.(T)  as the init statement of  if ..; ok
+func (t *qoTr) typeAssertInit(x *ast.IfStmt) (v, okName string, scrut ast.Expr, d *qoDynCase, found bool) {
+	as, isAs := x.Init.(*ast.AssignStmt)
+	if !isAs || as.Tok != token.DEFINE || len(as.Lhs) != 2 || len(as.Rhs) != 1 {
+		return
+	}
+	ta, isTa := as.Rhs[0].(*ast.TypeAssertExpr)
+	if !isTa || ta.Type == nil {
+		return
+	}
+	v0, ok0 := as.Lhs[0].(*ast.Ident)
+	v1, ok1 := as.Lhs[1].(*ast.Ident)
+	cond, okc := x.Cond.(*ast.Ident)
+	if !ok0 || !ok1 || !okc || cond.Name != v1.Name {
+		return
+	}
+	d = qoDynOf(t.src(ta.Type))
+	if d == nil {
+		return
+	}
+	return v0.Name, v1.Name, ta.X, d, true
+}
+
+func (t *qoTr) ifStmt(x *ast.IfStmt, c qoCtx, cont func(qoCtx) string) string {
+	els, ok := gcElse(x)
+	if !ok {
+		t.fail(x, "else outside the scheme")
+		return "Panic"
+	}
+	var pre []string
+	ci := c.inner()
+	cThen, cElse := ci, ci
+	var head, mid, end string
+	var thenPre, elsePre []string
+	if v, okName, scrutE, d, isTA := t.typeAssertInit(x); x.Init != nil && isTA {
+		sc, ty := t.pure(scrutE, c)
+		t.coerce(scrutE, sc, ty, qoK("dyn"))
+		name := t.declare(x, &cThen, v, d.ty)
+		head = fmt.Sprintf("match %s with\n| %s %s =>", sc, d.ctor, name)
+		mid, end = "| _ =>", "\nend"
+		okThen := t.declare(x, &cThen, okName, qoK("bool"))
+		thenPre = append(thenPre, fmt.Sprintf("let %s := true in", okThen))
+		if v != "_" {
+			if z, hasZ := d.ty.zero(); hasZ {
+				zn := t.declare(x, &cElse, v, d.ty)
+				elsePre = append(elsePre, fmt.Sprintf("let %s : %s := %s in", zn, d.ty.coq(), z))
+			}
+		}
+		okElse := t.declare(x, &cElse, okName, qoK("bool"))
+		elsePre = append(elsePre, fmt.Sprintf("let %s := false in", okElse))
+	} else {
+		if x.Init != nil {
+			lines, ok := t.simple(x.Init, &ci)
+			if !ok {
+				t.fail(x, "if with an init statement outside the scheme")
+				return "Panic"
+			}
+			pre = append(pre, lines...)
+		}
+		cond, ty := t.expr(x.Cond, ci, &pre)
+		t.coerce(x.Cond, cond, ty, qoK("bool"))
+		head, mid = fmt.Sprintf("if %s then", cond), "else"
+		cThen, cElse = ci, ci
+	}
+	snapshot := qoCopySet(t.fresh)
+	var elseNode ast.Node
+	if x.Else != nil {
+		elseNode = x.Else
+	}
+	if qoContainsReturn(x) {
+		rest := qoOnce(func() string { t.leave(snapshot, x.Body, elseNode); return cont(c) })
+		back := func(c2 qoCtx) string { return rest() }
+		a := gcJoin(thenPre, t.stmts(x.Body.List, cThen.inner(), back))
+		t.fresh = qoCopySet(snapshot)
+		b := gcJoin(elsePre, t.stmts(els, cElse.inner(), back))
+		return gcJoin(pre, fmt.Sprintf("%s\n%s\n%s\n%s%s", head, gsIndent(a), mid, gsIndent(b), end))
+	}
+	nodes := []ast.Node{x.Body}
+	if x.Else != nil {
+		nodes = append(nodes, x.Else)
+	}
+	res := t.assigned(c, nodes...)
+	if len(res) == 0 {
+		t.fail(x, "an if without return that stores into no outer variable")
+	}
+	innerThen, innerElse := cThen.inner(), cElse.inner()
+	innerThen.top, innerElse.top = false, false
+	exit := func(c2 qoCtx) string { return "Ok " + gcTuple(qoCoqNames(res)) }
+	a := gcJoin(thenPre, t.stmts(x.Body.List, innerThen, exit))
+	t.fresh = qoCopySet(snapshot)
+	b := gcJoin(elsePre, t.stmts(els, innerElse, exit))
+	t.leave(snapshot, x.Body, elseNode)
+	line := fmt.Sprintf("do %s <- (\n%s\n%s\n%s\n%s%s);", gcTuple(qoCoqNames(res)), gsIndent(head), gsIndent(gsIndent(a)), gsIndent(mid), gsIndent(gsIndent(b)), gsIndent(end))
+	return gcJoin(pre, line+"\n"+cont(c))
+}
+
+// switch t := x.(type): a match on the constructors of gq_dyn; the default clause (or falling out of the
+// switch) is the wildcard arm, written last
+func (t *qoTr) typeSwitch(x *ast.TypeSwitchStmt, c qoCtx, cont func(qoCtx) string) string {
+	if x.Init != nil {
+		t.fail(x, "type switch with an init statement")
+		return "Panic"
+	}
+	bind := ""
+	var ta *ast.TypeAssertExpr
+	switch a := x.Assign.(type) {
+	case *ast.AssignStmt:
+		if len(a.Lhs) == 1 && len(a.Rhs) == 1 {
+			if id, ok := a.Lhs[0].(*ast.Ident); ok {
+				bind = id.Name
+			}
+			ta, _ = a.Rhs[0].(*ast.TypeAssertExpr)
+		}
+	case *ast.ExprStmt:
+		ta, _ = a.X.(*ast.TypeAssertExpr)
+	}
+	if ta == nil {
+		t.fail(x, "type switch outside the scheme")
+		return "Panic"
+	}
+	sc, ty := t.pure(ta.X, c)
+	t.coerce(ta.X, sc, ty, qoK("dyn"))
+	hasRet := qoContainsReturn(x.Body)
+	var res []qoVar
+	var exit func(qoCtx) string
+	snapshot := qoCopySet(t.fresh)
+	if hasRet {
+		rest := qoOnce(func() string { t.leave(snapshot, x.Body); return cont(c) })
+		exit = func(c2 qoCtx) string { return rest() }
+	} else {
+		res = t.assigned(c, x.Body)
+		if len(res) == 0 {
+			t.fail(x, "a type switch without return that stores into no outer variable")
+		}
+		exit = func(c2 qoCtx) string { return "Ok " + gcTuple(qoCoqNames(res)) }
+	}
+	var arms []string
+	defaultArm := ""
+	seen := map[string]bool{}
+	for _, cl := range x.Body.List {
+		cc := cl.(*ast.CaseClause)
+		t.fresh = qoCopySet(snapshot)
+		ci := c.inner()
+		if !hasRet {
+			ci.top = false
+		}
+		if cc.List == nil {
+			var lines []string
+			if bind != "" {
+				name := t.declare(cc, &ci, bind, qoK("dyn"))
+				lines = append(lines, fmt.Sprintf("let %s := %s in", name, sc))
+			}
+			defaultArm = "| _ =>\n" + gsIndent(gcJoin(lines, t.stmts(cc.Body, ci, exit)))
+			continue
+		}
+		if len(cc.List) != 1 {
+			t.fail(cc, "a case with several types")
+			continue
+		}
+		d := qoDynOf(t.src(cc.List[0]))
+		if d == nil || seen[d.text] {
+			t.fail(cc, "case type outside the scheme: %s", t.src(cc.List[0]))
+			continue
+		}
+		seen[d.text] = true
+		name := "_"
+		if bind != "" {
+			name = t.declare(cc, &ci, bind, d.ty)
+		}
+		arms = append(arms, fmt.Sprintf("| %s %s =>\n%s", d.ctor, name, gsIndent(t.stmts(cc.Body, ci, exit))))
+	}
+	if defaultArm == "" {
+		t.fresh = qoCopySet(snapshot)
+		defaultArm = "| _ =>\n" + gsIndent(exit(c))
+	}
+	if !hasRet {
+		t.leave(snapshot, x.Body)
+	}
+	text := fmt.Sprintf("match %s with\n%s\n%s\nend", sc, strings.Join(arms, "\n"), defaultArm)
+	if hasRet {
+		return text
+	}
+	return fmt.Sprintf("do %s <- (\n%s);\n%s", gcTuple(qoCoqNames(res)), gsIndent(text), cont(c))
+}
+
+func qoFlatVars(c qoCtx) []qoVar {
+	var out []qoVar
+	seen := map[string]bool{}
+	for i := len(c.vars) - 1; i >= 0; i-- {
+		v := c.vars[i]
+		if seen[v.name] {
+			continue
+		}
+		seen[v.name] = true
+		out = append([]qoVar{v}, out...)
+	}
+	return out
+}
+
+func (t *qoTr) rangeStmt(x *ast.RangeStmt, c qoCtx, cont func(qoCtx) string) string {
+	if x.Tok != token.DEFINE {
+		t.fail(x, "range without :=")
+		return "Panic"
+	}
+	var pre []string
+	xs, tx := t.expr(x.X, c, &pre)
+	if tx.k != "slice" && tx.k != "map" {
+		t.fail(x, "range over something that is neither a slice nor a map: %s", t.src(x.X))
+		return "Panic"
+	}
+	body := c.inner()
+	body.top = false
+	check := func(n ast.Expr) string {
+		id, ok := n.(*ast.Ident)
+		if !ok {
+			t.fail(x, "range variable that is not an identifier")
+			return "_"
+		}
+		return id.Name
+	}
+	keyName, valName := "", "_"
+	pat := ""
+	elTy := ""
+	keyIsCounter := tx.k == "slice"
+	if tx.k == "slice" {
+		elTy = tx.elem.coq()
+		if x.Key != nil {
+			if n := check(x.Key); n != "_" {
+				keyName = t.declare(x, &body, n, qoK("int"))
+			}
+		}
+		if x.Value != nil {
+			if n := check(x.Value); n != "_" {
+				valName = t.declare(x, &body, n, tx.elem)
+				as, _ := qoAssignedNames(x.Body)
+				if r := gcRootIdent(x.X); r != "" && as[r] {
+					t.fail(x, "the body stores into the slice it ranges over by value")
+				}
+			}
+		}
+		pat = valName
+	} else {
+		elTy = "(bytes * " + tx.elem.coq() + ")"
+		kn, vn := "_", "_"
+		if x.Key != nil {
+			if n := check(x.Key); n != "_" {
+				kn = t.declare(x, &body, n, qoK("string"))
+			}
+		}
+		if x.Value != nil {
+			if n := check(x.Value); n != "_" {
+				vn = t.declare(x, &body, n, tx.elem)
+			}
+		}
+		as, _ := qoAssignedNames(x.Body)
+		if r := gcRootIdent(x.X); r != "" && as[r] {
+			t.fail(x, "the body stores into the map it ranges over")
+		}
+		pat = "(" + kn + ", " + vn + ")"
+		t.norder++
+		ord := fmt.Sprintf("%s_order%d", t.f.coq, t.norder)
+		t.f.orders = append(t.f.orders, ord)
+		xs = fmt.Sprintf("(%s _ %s)", ord, xs)
+	}
+	_ = keyIsCounter
+	hasRet := qoContainsReturn(x.Body)
+	res := t.assigned(c, x.Body)
+	if hasRet && !c.top {
+		t.fail(x, "a loop with a return inside that is not at the top level of the function")
+	}
+	const hole = "@LOOPARGS@"
+	snapshot := qoCopySet(t.fresh)
+	bodyText := t.stmts(x.Body.List, body, func(c2 qoCtx) string {
+		call := "loop l'"
+		if keyName != "" {
+			call += " (" + keyName + " + 1)"
+		}
+		return call + hole
+	})
+	var exit, rty string
+	t.leave(snapshot, x.Body)
+	if hasRet {
+		exit = cont(c)
+		rty = t.f.resCoq()
+	} else {
+		exit = "Ok " + gcTuple(qoCoqNames(res))
+		rty = gcTypeTuple(qoCoqTypes(res))
+	}
+	var params []qoVar
+	isRes := map[string]bool{}
+	for _, v := range res {
+		isRes[v.coq] = true
+	}
+	for _, v := range qoFlatVars(c) {
+		if isRes[v.coq] || gsMentions(bodyText, v.coq) || gsMentions(exit, v.coq) {
+			params = append(params, v)
+		}
+	}
+	args, sig, tys := "", "", ""
+	for _, v := range params {
+		args += " " + v.coq
+		sig += fmt.Sprintf(" (%s : %s)", v.coq, v.ty.coq())
+		tys += v.ty.coq() + " -> "
+	}
+	bodyText = strings.ReplaceAll(bodyText, hole, args)
+	t.nloops++
+	name := fmt.Sprintf("%s_loop%d", t.f.coq, t.nloops)
+	keySig, keyTy, keyArg := "", "", ""
+	if keyName != "" {
+		keySig, keyTy, keyArg = " ("+keyName+" : Z)", "Z -> ", " 0"
+	}
+	var b strings.Builder
+	fmt.Fprintf(&b, "Definition %s : list %s -> %s%soutcome %s :=\n", name, elTy, keyTy, tys, rty)
+	fmt.Fprintf(&b, "  fix loop (l : list %s)%s%s {struct l} : outcome %s :=\n", elTy, keySig, sig, rty)
+	fmt.Fprintf(&b, "  match l with\n  | [] =>\n%s\n  | %s :: l' =>\n%s\n  end.\n", gsIndent(gsIndent(exit)), pat, gsIndent(gsIndent(bodyText)))
+	t.loops = append(t.loops, b.String())
+	call := name + " " + xs + keyArg + args
+	if hasRet {
+		return gcJoin(pre, call)
+	}
+	return gcJoin(pre, fmt.Sprintf("do %s <- %s;\n%s", gcTuple(qoCoqNames(res)), call, cont(c)))
+}
+
+// ------------------------------------------------------------------ functions
+
+func qoCoqName(fn string) string { return "gq_" + strings.ReplaceAll(fn, ".", "_") }
+
+func qoSignature(p *pkgInfo, f *qoFunc) bool {
+	t := &qoTr{p: p, f: f}
+	fd := f.fd
+	if fd.Recv != nil {
+		if len(fd.Recv.List) != 1 || len(fd.Recv.List[0].Names) != 1 {
+			t.fail(fd, "receiver outside the scheme")
+			return false
+		}
+		if _, isPtr := fd.Recv.List[0].Type.(*ast.StarExpr); isPtr {
+			t.fail(fd, "pointer receiver")
+			return false
+		}
+		ty := t.resolve(fd.Recv.List[0].Type)
+		name := fd.Recv.List[0].Names[0].Name
+		f.recv = &qoVar{name, "v_" + name, ty, 0}
+	}
+	for _, fl := range fd.Type.Params.List {
+		ty := t.resolve(fl.Type)
+		for _, n := range fl.Names {
+			f.params = append(f.params, qoVar{n.Name, "v_" + n.Name, ty, 0})
+			if ty.ptr {
+				f.ptrs = append(f.ptrs, qoVar{n.Name, "v_" + n.Name, ty, 0})
+			}
+		}
+		if len(fl.Names) == 0 {
+			t.fail(fd, "parameter without name")
+		}
+	}
+	if fd.Type.Results == nil || len(fd.Type.Results.List) == 0 {
+		t.fail(fd, "the function has no result")
+		return false
+	}
+	for _, fl := range fd.Type.Results.List {
+		if len(fl.Names) != 0 {
+			t.fail(fd, "named results")
+			return false
+		}
+		f.res = append(f.res, t.resolve(fl.Type))
+	}
+	return !t.bad
+}
+
+// resCoq: the Coq type of what the function answers: its results, then its value-result pointer parameters
+func (f *qoFunc) resCoq() string {
+	var rs []string
+	for _, r := range f.res {
+		rs = append(rs, r.coq())
+	}
+	for _, pv := range f.ptrs {
+		rs = append(rs, pv.ty.coq())
+	}
+	return gcTypeTuple(rs)
+}
+
+func qoTranslate(p *pkgInfo, f *qoFunc) {
+	t := &qoTr{p: p, f: f, fresh: map[string]bool{}}
+	c := qoCtx{top: true}
+	var sig []string
+	if f.recv != nil {
+		c.vars = append(c.vars, *f.recv)
+		sig = append(sig, fmt.Sprintf("(%s : %s)", f.recv.coq, f.recv.ty.coq()))
+	}
+	for _, v := range f.params {
+		c.vars = append(c.vars, v)
+		sig = append(sig, fmt.Sprintf("(%s : %s)", v.coq, v.ty.coq()))
+	}
+	c.depth = 1
+	body := t.stmts(f.fd.Body.List, c, func(c2 qoCtx) string {
+		t.fail(f.fd, "the function can fall off its end")
+		return "Panic"
+	})
+	var b strings.Builder
+	pk := f.spec.pkg
+	if pk == qoRoot {
+		pk = "qframe"
+	}
+	fmt.Fprintf(&b, "(* %s\n%s *)\n", pk, gcSource(p, f.fd))
+	for _, bv := range f.bvars {
+		b.WriteString(bv + "\n")
+	}
+	for _, o := range f.orders {
+		fmt.Fprintf(&b, "Variable %s : forall V : Type, gq_map V -> gq_map V.   (* the order in which this range visits the map *)\n", o)
+	}
+	for _, l := range t.loops {
+		b.WriteString(l)
+	}
+	fmt.Fprintf(&b, "Definition %s %s : outcome %s :=\n%s.\n", f.coq, strings.Join(sig, " "), f.resCoq(), gsIndent(body))
+	f.text = b.String()
+	f.ok = !t.bad
+}
+
+func genQFrameOps() string {
+	qoFuncs = map[string]*qoFunc{}
+	qoBoundaryDeclared = map[string]bool{}
+	root := loadPkg(qoRoot)
+	strp := loadPkg(qoStrPkg)
+	pkgOf := func(dir string) *pkgInfo {
+		if dir == qoStrPkg {
+			return strp
+		}
+		return root
+	}
+	sigOf := func(vp *pkgInfo, fd *ast.FuncDecl, withBody bool) string {
+		cp := *fd
+		cp.Doc = nil
+		if !withBody {
+			cp.Body = nil
+		}
+		return gcSrc(vp.fset, &cp)
+	}
+	for _, v := range qoVocabulary {
+		vp := loadPkg(v.pkg)
+		fd, ok := vp.funcs[v.fn]
+		if !ok || fd.Body == nil {
+			problem("qframe translation: %s not found in %s", v.fn, v.pkg)
+			continue
+		}
+		if sigOf(vp, fd, strings.Contains(v.text, "{\n")) != v.text {
+			problem("qframe translation: %s of %s is not the text the fixed vocabulary of the translation stands for", v.fn, v.pkg)
+		}
+	}
+	for _, bd := range qoBoundary {
+		vp := loadPkg(bd.pkg)
+		fd, ok := vp.funcs[bd.fn]
+		if !ok || fd.Body == nil {
+			problem("qframe translation: %s not found in %s", bd.fn, bd.pkg)
+			continue
+		}
+		if sigOf(vp, fd, false) != bd.sig {
+			problem("qframe translation: %s of %s does not have the signature the abstraction boundary of the translation stands for", bd.fn, bd.pkg)
+		}
+	}
+	if cp := loadPkg("internal/column"); true {
+		found := false
+		for _, f := range cp.files {
+			for _, d := range f.Decls {
+				if gd, ok := d.(*ast.GenDecl); ok && gd.Tok == token.TYPE {
+					for _, s := range gd.Specs {
+						ts := s.(*ast.TypeSpec)
+						if it, ok := ts.Type.(*ast.InterfaceType); ok && ts.Name.Name == "Column" {
+							n := 0
+							for _, m := range it.Methods.List {
+								if len(m.Names) == 1 && qoColMethods[m.Names[0].Name] != "" && gcSrc(cp.fset, m.Type) == qoColMethods[m.Names[0].Name] {
+									n++
+								}
+							}
+							found = n == len(qoColMethods)
+						}
+					}
+				}
+			}
+		}
+		if !found {
+			problem("qframe translation: the interface column.Column does not have the methods Len, Apply1, Apply2 with the signatures the abstraction boundary of the translation stands for")
+		}
+	}
+	for _, fb := range qoFrameBoundary {
+		fd, ok := root.funcs["QFrame."+fb.fn]
+		if !ok || fd.Body == nil {
+			problem("qframe translation: QFrame.%s not found", fb.fn)
+			continue
+		}
+		if sigOf(root, fd, false) != fb.sig {
+			problem("qframe translation: QFrame.%s does not have the signature the translation stands for", fb.fn)
+		}
+	}
+	for _, tt := range qoTypeTexts {
+		tp := loadPkg(tt.pkg)
+		found := false
+		for _, f := range tp.files {
+			for _, d := range f.Decls {
+				if gd, ok := d.(*ast.GenDecl); ok && gd.Tok == token.TYPE {
+					for _, s := range gd.Specs {
+						ts := s.(*ast.TypeSpec)
+						if ts.Name.Name == tt.name && gcSrc(tp.fset, ts.Type) == tt.text {
+							found = true
+						}
+					}
+				}
+			}
+		}
+		if !found {
+			problem("qframe translation: type %s of %s is not %s", tt.name, tt.pkg, tt.text)
+		}
+	}
+	structsOk := qoLoadStructs()
+	var fds []*ast.FuncDecl
+	for _, sp := range qoSpecs {
+		if fd, ok := pkgOf(sp.pkg).funcs[sp.fn]; ok && sp.pkg == qoRoot {
+			fds = append(fds, fd)
+		}
+	}
+	dynOk := qoLoadDyn(fds, root.fset)
+
+	golden := ""
+	if fl := flag.Lookup("golden"); fl != nil && fl.Value.String() != "" {
+		if gb, err := os.ReadFile(filepath.Join(fl.Value.String(), "GenQFrameOps.v")); err == nil {
+			golden = string(gb)
+		}
+	}
+	var b strings.Builder
+	b.WriteString(qoPreamble)
+	block := func(name, text string, ok bool) {
+		if !ok {
+			old, found := gfGoldenBlock(golden, name)
+			if !found {
+				return
+			}
+			text = "(* FALLBACK " + name + ": not derivable from the current source; text of the last validated tree *)\n" + old
+		}
+		fmt.Fprintf(&b, "(* BEGIN %s *)\n%s(* END %s *)\n\n", name, text, name)
+	}
+	usesDyn := func(s *qoStruct) bool {
+		for _, f := range s.fields {
+			if strings.Contains(f.ty.coq(), "gq_dyn") {
+				return true
+			}
+		}
+		return false
+	}
+	for _, late := range []bool{false, true} { // the structs that hold an interface{} come after gq_dyn
+		if late {
+			block("gq_dyn", qoDynInductive(), dynOk && structsOk)
+		}
+		for _, sp := range qoStructSpecs {
+			s := qoStructOf(sp.key)
+			if s == nil {
+				if !late {
+					block("gq_"+sp.name, "", false)
+				}
+				continue
+			}
+			if usesDyn(s) == late {
+				block("gq_"+sp.name, qoRecord(s), structsOk)
+			}
+		}
+	}
+	b.WriteString(`Section GenQFrameOps.
+Context {A E C F64 EC OTHER CF CL : Type}.
+Variable col_nil : C.                               (* the nil column.Column *)
+Variable new_error : bytes -> bytes -> E.           (* qerrors.New(operation, reason, ...) *)
+Variable propagate : bytes -> option E -> E.        (* qerrors.Propagate(operation, err) *)
+Variable checkname_error : bytes -> E.              (* the error CheckName answers for an illegal name *)
+Variable unknownCol : bytes -> bytes.               (* unknownCol(c): the message text *)
+Variable ecolumn_as_Column : EC -> C.               (* an ecolumn.Column stored in a column.Column variable *)
+Variable col_Len : C -> outcome Z.                  (* c.Len() of a column.Column: below the abstraction boundary *)
+Variable sort_strings : list bytes -> list bytes.   (* sort.Strings(s), in place *)
+Variable f64_zero : F64.                            (* the float64 zero value *)
+Variable id_int : A -> Z.                           (* a row id used as a position: s[i] for i of index.Int *)
+
+(* qfstrings.CheckName in its translated form (Gen/GenFuncs.v) *)
+Definition gq_CheckName (s : bytes) : option E :=
+  if gf_strings_CheckName (map Z.of_N s) then None else Some (checkname_error s).
+
+`)
+	for _, sp := range qoSpecs {
+		f := &qoFunc{spec: sp, coq: qoCoqName(sp.fn)}
+		qoFuncs[sp.pkg+":"+sp.fn] = f
+		p := pkgOf(sp.pkg)
+		fd, ok := p.funcs[sp.fn]
+		if !ok || fd.Body == nil {
+			problem("qframe translation: function %s not found in %s", sp.fn, sp.pkg)
+		} else {
+			f.fd = fd
+			if !qoSignature(p, f) {
+				f.fd = nil
+			}
+		}
+		if f.fd != nil {
+			qoTranslate(p, f)
+		}
+		f.done = true
+		block(f.coq, f.text, f.ok)
+	}
+	b.WriteString("End GenQFrameOps.\n")
+	return b.String()
+}
